@@ -1,28 +1,65 @@
 /-
 Lock-step simulation between the compiler machine (`Compile.step` on `toEvent c`) and pass 1 of the
-reference interpretation (`RefFlow.pass1Row` on `toRRow c`) for the rows of the fragment: after the
-same prefix of the sheet, arena node `j` is the compiled form of row `j` with the out-edges
-recorded for `j` so far.
+reference interpretation (`RefFlow.pass1Row` on `toRRow c`) for the rows of the fragment.  Rows need
+not produce exactly one node: `gOf rows j` is the group of a node-producing row `j` (static), the
+ghost maps `M.nOf` / `M.rOf` give the arena index of its node (and of the router node the compiler
+may create behind it).  After the same prefix of the sheet, the node of row `j` is the compiled form
+of row `j` with the out-edges recorded for `j` so far.
 -/
-import Rpft.CoreSheet
-import Rpft.Lemmas.CompileInvA4
-import Rpft.Lemmas.RefFlowPass1
-import Rpft.Lemmas.CompileChoice
-import Mathlib.Data.List.Forall2
-import Mathlib.Data.List.Infix
+import Rpft.Lemmas.CoreBase
 set_option linter.unusedSimpArgs false
 set_option linter.unusedVariables false
+set_option linter.unusedSectionVars false
 namespace Rpft.CoreSheet
 open Rpft Rpft.Compile Rpft.RefFlow
 
+/-! ### where the rows live -/
+
+/-- a row that produces a node (and a node group) -/
+def isNodeRow (c : CRow) : Bool := (kindOf c.row.type).isNode
+
+/-- the node group of a node-producing row: groups are created in row order, group 0 is the root -/
+def gOf (rows : List CRow) (j : Nat) : Nat := ((rows.take j).filter isNodeRow).length + 1
+
+theorem gOf_zero (rows : List CRow) : gOf rows 0 = 1 := by simp [gOf]
+
+theorem gOf_pos (rows : List CRow) (j : Nat) : 1 ≤ gOf rows j := by unfold gOf; omega
+
+theorem gOf_succ (rows : List CRow) (j : Nat) (c : CRow) (h : rows[j]? = some c) :
+    gOf rows (j + 1) = gOf rows j + (if isNodeRow c then 1 else 0) := by
+  unfold gOf
+  rw [List.take_add_one, h]
+  simp only [Option.toList, List.filter_append, List.length_append]
+  by_cases hn : isNodeRow c = true
+  · simp [hn, List.filter_cons]
+  · simp [hn, List.filter_cons]
+
+theorem gOf_mono (rows : List CRow) {j k : Nat} (h : j ≤ k) : gOf rows j ≤ gOf rows k := by
+  unfold gOf
+  have : (rows.take j).Sublist (rows.take k) := (List.take_sublist_take_left h)
+  have := (this.filter isNodeRow).length_le
+  omega
+
+theorem gOf_lt (rows : List CRow) {j k : Nat} {c : CRow} (h : j < k) (hc : rows[j]? = some c)
+    (hn : isNodeRow c = true) : gOf rows j < gOf rows k := by
+  have h1 := gOf_succ rows j c hc
+  rw [hn] at h1
+  have h2 := gOf_mono rows (show j + 1 ≤ k from h)
+  simp at h1; omega
+
+/-- ghost maps: arena index of the node of a row, and of the router node behind it (if any) -/
+structure Maps where
+  nOf : Nat → Nat
+  rOf : Nat → Option Nat
+
 /-- destination `d` of a compiled exit is what the reference target means -/
-def DestIs (ns : Array NodeM) (d : Dest) : Option Target → Prop
+def DestIs (M : Maps) (ns : Array NodeM) (d : Dest) : Option Target → Prop
   | none => d = Dest.none
-  | some (.row t) => ∃ m : NodeM, ns[t]? = some m ∧ d = Dest.node m.uid
+  | some (.row t) => ∃ m : NodeM, ns[M.nOf t]? = some m ∧ d = Dest.node m.uid
   | some .exit => d = Dest.hard ∨ d = Dest.none
 
-theorem DestIs.ext {ns ns' : Array NodeM} (h : NExt ns ns') {d : Dest} {t : Option Target}
-    (hd : DestIs ns d t) : DestIs ns' d t := by
+theorem DestIs.ext {M : Maps} {ns ns' : Array NodeM} (h : NExt ns ns') {d : Dest} {t : Option Target}
+    (hd : DestIs M ns d t) : DestIs M ns' d t := by
   cases t with
   | none => exact hd
   | some t =>
@@ -30,26 +67,16 @@ theorem DestIs.ext {ns ns' : Array NodeM} (h : NExt ns ns') {d : Dest} {t : Opti
     | exit => exact hd
     | row k =>
       obtain ⟨m, hm, e⟩ := hd
-      obtain ⟨m', hm', hu⟩ := h k m hm
+      obtain ⟨m', hm', hu⟩ := h _ m hm
       exact ⟨m', hm', by rw [e, hu]⟩
 
-/-- the out-edges recorded so far that leave row `j`, in order -/
-def outOf (st : P1) (j : Nat) : List OutEdge := st.out.reverse.filter (·.src = j)
-
-theorem outOf_cons_same (st : P1) (e : OutEdge) :
-    outOf { st with out := e :: st.out } e.src = outOf st e.src ++ [e] := by
-  simp [outOf, List.filter_append]
-
-theorem outOf_cons_other (st : P1) (e : OutEdge) (j : Nat) (h : e.src ≠ j) :
-    outOf { st with out := e :: st.out } j = outOf st j := by
-  simp [outOf, List.filter_append, h]
-
 /-- an action row without conditional out-edges: one node, one exit -/
-structure PlainSim (ns : Array NodeM) (n : NodeM) (act : Option Str) (es : List OutEdge) : Prop where
+structure PlainSim (M : Maps) (ns : Array NodeM) (n : NodeM) (act : Option Str) (es : List OutEdge) : Prop where
   kind : n.kind = NodeKind.basic
   router : n.router = none
   acts : n.actions.map (·.2) = act.toList
-  dest : DestIs ns n.dexitDest ((es.getLast?).map (·.tgt))
+  dest : DestIs M ns n.dexitDest ((es.getLast?).map (·.tgt))
+  blank : ∀ e ∈ es, e.cond.blank = true
 
 /-- the `wait` attribute of the router of a deciding row -/
 def waitOf (c : CRow) : Option Nat :=
@@ -58,7 +85,7 @@ def waitOf (c : CRow) : Option Nat :=
 /-- a deciding row: one node with a switch router; case `i` selects category `i`, whose exit leads
 where the `i`-th test edge leads; the default category follows the last unconditional edge, the
 "No Response" category (when there is a timeout) the last "no response" edge -/
-structure SwitchSim (ns : Array NodeM) (n : NodeM) (c : CRow) (es : List OutEdge) (r : SwitchR) : Prop where
+structure SwitchSim (M : Maps) (ns : Array NodeM) (n : NodeM) (c : CRow) (es : List OutEdge) (r : SwitchR) : Prop where
   kind : n.kind = NodeKind.switch
   acts : n.actions = []
   router : n.router = some (.sw r)
@@ -69,353 +96,447 @@ structure SwitchSim (ns : Array NodeM) (n : NodeM) (c : CRow) (es : List OutEdge
   cases : r.cases.map (fun k => (k.type, k.args.map (·.getD []))) =
     (testsOf (kindOf c.row.type) es).map (fun e => refTest (kindOf c.row.type) e.cond)
   casecat : r.cases.map (·.catUid) = r.cats.map (·.uid)
-  catd : List.Forall₂ (fun (cat : Cat) (e : OutEdge) => DestIs ns cat.dest (some e.tgt)) r.cats
+  catd : List.Forall₂ (fun (cat : Cat) (e : OutEdge) => DestIs M ns cat.dest (some e.tgt)) r.cats
     (testsOf (kindOf c.row.type) es)
-  dflt : DestIs ns r.dflt.dest (((es.filter (·.cond.blank)).getLast?).map (·.tgt))
+  dflt : DestIs M ns r.dflt.dest (((es.filter (·.cond.blank)).getLast?).map (·.tgt))
   nr : ∀ nr, r.noResp = some nr →
-    DestIs ns nr.dest ((((es.filter (fun e => !e.cond.blank)).filter (fun e => isNR e.cond)).getLast?).map (·.tgt))
+    DestIs M ns nr.dest ((((es.filter (fun e => !e.cond.blank)).filter (fun e => isNR e.cond)).getLast?).map (·.tgt))
+  names : r.cats.map (·.name) = namesFrom (kindOf c.row.type) (timeoutOf c.row) [] (testsOf (kindOf c.row.type) es) ∧
+    ([r.dflt] ++ r.noResp.toList).map (·.name) = baseNames (kindOf c.row.type) (timeoutOf c.row)
 
-inductive NodeSim (ns : Array NodeM) (n : NodeM) (c : CRow) (es : List OutEdge) : Prop
-  | plain : kindOf c.row.type = .action → PlainSim ns n c.row.action es → NodeSim ns n c es
+/-! #### rows with fixed outcomes -/
+
+/-- the edges that set the first outcome (Complete / Success) of a fixed-outcome row -/
+def isSucc (K : Kind) (e : OutEdge) : Bool :=
+  if K = .enterFlow then
+    (decide (RefFlow.lower e.cond.value = "complete".toList) || decide (RefFlow.lower e.cond.value = "completed".toList))
+  else decide (RefFlow.lower e.cond.value = "success".toList)
+
+/-- the edges that set the other outcome (Expired / Failure) -/
+def isFail (K : Kind) (e : OutEdge) : Bool :=
+  if K = .enterFlow then decide (RefFlow.lower e.cond.value = "expired".toList)
+  else (e.cond.blank || decide (RefFlow.lower e.cond.value = "failure".toList))
+
+def fixKind : Kind → NodeKind
+  | .enterFlow => .enter
+  | .webhook => .webhook
+  | _ => .airtime
+
+def succName (K : Kind) : Str := if K = .enterFlow then "Complete".toList else "Success".toList
+
+/-- the (fixed) cases of such a row: test type, arguments, category -/
+def fixCases (K : Kind) (su du : Uid) : List (Str × List Str × Uid) :=
+  match K with
+  | .enterFlow => [("has_only_text".toList, ["completed".toList], su), ("has_only_text".toList, ["expired".toList], du)]
+  | .webhook => [("has_only_text".toList, ["Success".toList], su)]
+  | _ => [("has_category".toList, ["Success".toList], su)]
+
+/-- a `start_new_flow` / `call_webhook` / `transfer_airtime` row: one node performing the row's own
+action, with a switch whose cases are fixed; category `sc` (Complete / Success) follows the last
+edge naming that outcome, the default category (Expired / Failure) the last edge naming the other -/
+structure FixSim (M : Maps) (ns : Array NodeM) (n : NodeM) (c : CRow) (es : List OutEdge) (r : SwitchR) (sc : Cat) : Prop where
+  kind : n.kind = fixKind (kindOf c.row.type)
+  acts : n.actions.map (·.2) = [c.row.ownAction.getD []]
+  router : n.router = some (.sw r)
+  operand : r.operand = operandOf c.row
+  rname : r.resultName = none
+  wait : r.wait = none
+  noResp : r.noResp = none
+  cats : r.cats = [sc]
+  sname : sc.name = succName (kindOf c.row.type)
+  uidne : sc.uid ≠ r.dflt.uid
+  cases : r.cases.map (fun k => (k.type, k.args.map (·.getD []), k.catUid)) = fixCases (kindOf c.row.type) sc.uid r.dflt.uid
+  succ : DestIs M ns sc.dest (((es.filter (isSucc (kindOf c.row.type))).getLast?).map (·.tgt))
+  dflt : DestIs M ns r.dflt.dest (((es.filter (isFail (kindOf c.row.type))).getLast?).map (·.tgt))
+
+theorem isSucc_enter (e : OutEdge) : isSucc .enterFlow e = true ↔
+    (RefFlow.lower e.cond.value = "complete".toList ∨ RefFlow.lower e.cond.value = "completed".toList) := by
+  unfold isSucc
+  rw [if_pos rfl, Bool.or_eq_true, decide_eq_true_iff, decide_eq_true_iff]
+
+theorem isFail_enter (e : OutEdge) : isFail .enterFlow e = true ↔ RefFlow.lower e.cond.value = "expired".toList := by
+  unfold isFail
+  rw [if_pos rfl, decide_eq_true_iff]
+
+theorem isSucc_hook (K : Kind) (hK : K ≠ .enterFlow) (e : OutEdge) :
+    isSucc K e = true ↔ RefFlow.lower e.cond.value = "success".toList := by
+  unfold isSucc
+  rw [if_neg hK, decide_eq_true_iff]
+
+theorem isFail_hook (K : Kind) (hK : K ≠ .enterFlow) (e : OutEdge) :
+    isFail K e = true ↔ (e.cond.blank = true ∨ RefFlow.lower e.cond.value = "failure".toList) := by
+  unfold isFail
+  rw [if_neg hK, Bool.or_eq_true, decide_eq_true_iff]
+
+theorem bool_false_of_not {b : Bool} (h : ¬ b = true) : b = false := by cases b <;> simp_all
+
+/-! #### `split_random` rows -/
+
+/-- a `split_random` row: one node with a random router; its categories are the buckets of the
+leaving edges, in order of first appearance, each leading where its last edge leads -/
+structure RandSim (M : Maps) (ns : Array NodeM) (n : NodeM) (c : CRow) (es : List OutEdge) (r : RandomR) : Prop where
+  kind : n.kind = NodeKind.random
+  acts : n.actions = []
+  router : n.router = some (.rnd r)
+  rname : r.resultName = some c.row.saveName
+  uids : (r.cats.map (·.uid)).Nodup
+  names : (r.cats.map (·.name)).Nodup
+  rel : List.Forall₂ (fun (cat : Cat) (b : Str × Target) => DestIs M ns cat.dest (some b.2) ∧ NameRel cat.name b.1)
+    r.cats (bucketsOf es).1
+  gen : ∀ cat ∈ r.cats, ∀ k, cat.name = "Bucket ".toList ++ Compile.natStr k → k < r.cats.length + 2
+
+def isFixedKind (K : Kind) : Prop := K = .enterFlow ∨ K = .webhook ∨ K = .airtime
+
+inductive NodeSim (M : Maps) (ns : Array NodeM) (n : NodeM) (c : CRow) (es : List OutEdge) : Prop
+  | plain : kindOf c.row.type = .action → PlainSim M ns n c.row.action es → NodeSim M ns n c es
   | sw (r : SwitchR) : (kindOf c.row.type = .wait ∨ kindOf c.row.type = .splitValue ∨ kindOf c.row.type = .splitGroup) →
-      SwitchSim ns n c es r → NodeSim ns n c es
+      SwitchSim M ns n c es r → NodeSim M ns n c es
+  | fix (r : SwitchR) (sc : Cat) : isFixedKind (kindOf c.row.type) → FixSim M ns n c es r sc → NodeSim M ns n c es
+  | rnd (r : RandomR) : kindOf c.row.type = .splitRandom → RandSim M ns n c es r → NodeSim M ns n c es
 
-theorem NodeSim.ext {ns ns' : Array NodeM} (h : NExt ns ns') {n : NodeM} {c : CRow} {es : List OutEdge}
-    (hs : NodeSim ns n c es) : NodeSim ns' n c es := by
+theorem NodeSim.ext {M : Maps} {ns ns' : Array NodeM} (h : NExt ns ns') {n : NodeM} {c : CRow} {es : List OutEdge}
+    (hs : NodeSim M ns n c es) : NodeSim M ns' n c es := by
   cases hs with
-  | plain hk hp => exact .plain hk ⟨hp.kind, hp.router, hp.acts, hp.dest.ext h⟩
+  | plain hk hp => exact .plain hk ⟨hp.kind, hp.router, hp.acts, hp.dest.ext h, hp.blank⟩
   | sw r hk hp =>
     refine .sw r hk ⟨hp.kind, hp.acts, hp.router, hp.operand, hp.rname, hp.wait, hp.nrSome, hp.cases, hp.casecat,
-      ?_, hp.dflt.ext h, fun nr hnr => (hp.nr nr hnr).ext h⟩
+      ?_, hp.dflt.ext h, fun nr hnr => (hp.nr nr hnr).ext h, hp.names⟩
+    exact hp.catd.imp (fun _ _ hd => hd.ext h)
+  | fix r sc hk hp =>
+    exact .fix r sc hk ⟨hp.kind, hp.acts, hp.router, hp.operand, hp.rname, hp.wait, hp.noResp, hp.cats, hp.sname,
+      hp.uidne, hp.cases, hp.succ.ext h, hp.dflt.ext h⟩
+  | rnd r hk hp =>
+    exact .rnd r hk ⟨hp.kind, hp.acts, hp.router, hp.rname, hp.uids, hp.names,
+      hp.rel.imp (fun _ _ hd => ⟨hd.1.ext h, hd.2⟩), hp.gen⟩
+
+/-! #### an action row with conditional out-edges: the compiler puts a router node behind its node -/
+
+/-- what the router behind the node of an action row decides on: the variable its conditional edges
+name, or the reply -/
+def implOperand (es : List OutEdge) : Str := if (implVar es).isEmpty then "@input.text".toList else implVar es
+
+/-- it waits for a reply iff the edges name no variable -/
+def implWait (es : List OutEdge) : Option Nat := if (implVar es).isEmpty then some 0 else none
+
+/-- node `n` performs the action and leads to node `n'` (arena index `i'`), which decides -/
+structure ImplSim (M : Maps) (ns : Array NodeM) (n : NodeM) (c : CRow) (es : List OutEdge) (i' : Nat) (n' : NodeM)
+    (r : SwitchR) : Prop where
+  kind : n.kind = NodeKind.basic
+  router : n.router = none
+  acts : n.actions.map (·.2) = c.row.action.toList
+  link : n.dexitDest = Dest.node n'.uid
+  rnode : ns[i']? = some n'
+  kind' : n'.kind = NodeKind.switch
+  acts' : n'.actions = []
+  router' : n'.router = some (.sw r)
+  operand : r.operand = implOperand es
+  rname : r.resultName = none
+  wait : r.wait = implWait es
+  noResp : r.noResp = none
+  cases : r.cases.map (fun k => (k.type, k.args.map (·.getD []))) =
+    (testsOf .action es).map (fun e => refTest .action e.cond)
+  casecat : r.cases.map (·.catUid) = r.cats.map (·.uid)
+  catd : List.Forall₂ (fun (cat : Cat) (e : OutEdge) => DestIs M ns cat.dest (some e.tgt)) r.cats (testsOf .action es)
+  dflt : DestIs M ns r.dflt.dest (((es.filter (·.cond.blank)).getLast?).map (·.tgt))
+  some : testsOf .action es ≠ []
+  names : r.cats.map (·.name) = namesFrom .action (timeoutOf c.row) [] (testsOf .action es) ∧
+    r.dflt.name = "Other".toList
+
+/-- the nodes of a row: one node, or (action row with conditional out-edges) two -/
+inductive RowSim (M : Maps) (ns : Array NodeM) (n : NodeM) (c : CRow) (es : List OutEdge) : Option Nat → Prop
+  | one : NodeSim M ns n c es → RowSim M ns n c es none
+  | impl (i' : Nat) (n' : NodeM) (r : SwitchR) : kindOf c.row.type = .action → ImplSim M ns n c es i' n' r →
+      RowSim M ns n c es (some i')
+
+/-- other nodes change (keeping their identifiers), the router node of the row does not -/
+theorem RowSim.transfer {M : Maps} {ns ns' : Array NodeM} (h : NExt ns ns') {n : NodeM} {c : CRow} {es : List OutEdge}
+    {ro : Option Nat} (hro : ∀ i ∈ ro.toList, ns'[i]? = ns[i]?) (hs : RowSim M ns n c es ro) : RowSim M ns' n c es ro := by
+  cases hs with
+  | one hn => exact .one (hn.ext h)
+  | impl i' n' r hk hp =>
+    refine .impl i' n' r hk ⟨hp.kind, hp.router, hp.acts, hp.link, by rw [hro i' (by simp)]; exact hp.rnode, hp.kind',
+      hp.acts', hp.router', hp.operand, hp.rname, hp.wait, hp.noResp, hp.cases, hp.casecat, ?_, hp.dflt.ext h, hp.some, hp.names⟩
     exact hp.catd.imp (fun _ _ hd => hd.ext h)
 
-/-- `kn` nodes in the arena, `kg` rows fully processed (`kn = kg`, or `kn = kg + 1` while the edges
-of row `kg` are being added) -/
-structure Rel (rows : List CRow) (kn kg : Nat) (s : St) (st : P1) : Prop where
-  nsize : s.nodes.size = kn
-  gsize : s.groups.size = kg + 1
-  root : s.groups[0]? = some (.block (List.range' 1 kg))
-  grp : ∀ j, j < kg → ∃ c, rows[j]? = some c ∧ s.groups[j + 1]? = some (.row [j] c.row.type)
-  stack : s.stack = [0]
-  ids : s.rowIds = st.ids.map (fun p => (p.1, p.2 + 1))
-  idlt : ∀ p ∈ st.ids, p.2 < kg
-  prev : st.prev = if kg = 0 then none else some (kg - 1)
-  srclt : ∀ e ∈ st.out, e.src < kg
-  args : s.noArgs = RefFlow.noArgsTests
-  node : ∀ j, j < kn → ∃ (n : NodeM) (c : CRow), s.nodes[j]? = some n ∧ rows[j]? = some c ∧
-    NodeSim s.nodes n c (outOf st j)
+theorem DestIs.congrN {M M' : Maps} (hM : ∀ t, M'.nOf t = M.nOf t) {ns : Array NodeM} {d : Dest} {t : Option Target}
+    (hd : DestIs M ns d t) : DestIs M' ns d t := by
+  cases t with
+  | none => exact hd
+  | some t =>
+    cases t with
+    | exit => exact hd
+    | row k =>
+      obtain ⟨m, hm, e⟩ := hd
+      exact ⟨m, by rw [hM k]; exact hm, e⟩
 
-/-- the node of row `j` is replaced (same identifier) by one that accounts for the new out-edge -/
-theorem Rel.update {rows : List CRow} {kn kg : Nat} {s s' : St} {st : P1} (h : Rel rows kn kg s st)
-    {j : Nat} {n n' : NodeM} {c : CRow} (new : OutEdge) (hsrc : new.src = j) (hj : j < kg)
-    (hn : s.nodes[j]? = some n) (hc : rows[j]? = some c) (hu : n'.uid = n.uid)
-    (hn' : s'.nodes[j]? = some n') (hoth : ∀ i, i ≠ j → s'.nodes[i]? = s.nodes[i]?)
-    (hsz : s'.nodes.size = s.nodes.size) (hg : s'.groups = s.groups) (hst : s'.stack = s.stack)
-    (hri : s'.rowIds = s.rowIds) (hna : s'.noArgs = s.noArgs)
-    (hsim : NodeSim s'.nodes n' c (outOf st j ++ [new])) :
-    Rel rows kn kg s' { st with out := new :: st.out } ∧ NExt s.nodes s'.nodes := by
-  have hext : NExt s.nodes s'.nodes := by
-    intro i m hm
-    by_cases hij : i = j
-    · subst hij; rw [hn] at hm; injection hm with hm; subst hm; exact ⟨n', hn', hu⟩
-    · exact ⟨m, by rw [hoth i hij]; exact hm, rfl⟩
-  refine ⟨⟨by rw [hsz]; exact h.nsize, by rw [hg]; exact h.gsize, by rw [hg]; exact h.root,
-    by rw [hg]; exact h.grp, by rw [hst]; exact h.stack, by rw [hri]; exact h.ids, h.idlt, h.prev, ?_,
-    by rw [hna]; exact h.args, ?_⟩, hext⟩
+/-- only `nOf` matters for the nodes of a row -/
+theorem NodeSim.congrN {M M' : Maps} (hM : ∀ t, M'.nOf t = M.nOf t) {ns : Array NodeM} {n : NodeM} {c : CRow}
+    {es : List OutEdge} (hs : NodeSim M ns n c es) : NodeSim M' ns n c es := by
+  cases hs with
+  | plain hk hp => exact .plain hk ⟨hp.kind, hp.router, hp.acts, hp.dest.congrN hM, hp.blank⟩
+  | sw r hk hp =>
+    refine .sw r hk ⟨hp.kind, hp.acts, hp.router, hp.operand, hp.rname, hp.wait, hp.nrSome, hp.cases, hp.casecat,
+      ?_, hp.dflt.congrN hM, fun nr hnr => (hp.nr nr hnr).congrN hM, hp.names⟩
+    exact hp.catd.imp (fun _ _ hd => hd.congrN hM)
+  | fix r sc hk hp =>
+    exact .fix r sc hk ⟨hp.kind, hp.acts, hp.router, hp.operand, hp.rname, hp.wait, hp.noResp, hp.cats, hp.sname,
+      hp.uidne, hp.cases, hp.succ.congrN hM, hp.dflt.congrN hM⟩
+  | rnd r hk hp =>
+    exact .rnd r hk ⟨hp.kind, hp.acts, hp.router, hp.rname, hp.uids, hp.names,
+      hp.rel.imp (fun _ _ hd => ⟨hd.1.congrN hM, hd.2⟩), hp.gen⟩
+
+theorem RowSim.congrN {M M' : Maps} (hM : ∀ t, M'.nOf t = M.nOf t) {ns : Array NodeM} {n : NodeM} {c : CRow}
+    {es : List OutEdge} {ro : Option Nat} (hs : RowSim M ns n c es ro) : RowSim M' ns n c es ro := by
+  cases hs with
+  | one hn => exact .one (hn.congrN hM)
+  | impl i' n' r hk hp =>
+    refine .impl i' n' r hk ⟨hp.kind, hp.router, hp.acts, hp.link, hp.rnode, hp.kind',
+      hp.acts', hp.router', hp.operand, hp.rname, hp.wait, hp.noResp, hp.cases, hp.casecat, ?_, hp.dflt.congrN hM, hp.some, hp.names⟩
+    exact hp.catd.imp (fun _ _ hd => hd.congrN hM)
+
+/-- the arena indices of the nodes of row `j` -/
+def idxs (M : Maps) (j : Nat) : List Nat := M.nOf j :: (M.rOf j).toList
+
+/-- the category identifiers of the random routers in the arena were drawn from the counter -/
+def RFresh (nodes : Array NodeM) (next : Nat) : Prop :=
+  ∀ (i : Nat) (n : NodeM) (r : RandomR), nodes[i]? = some n → n.router = some (RouterM.rnd r) →
+    ∀ cat ∈ r.cats, ∃ k, k < next ∧ cat.uid = tid k
+
+/-- row `j` has been parsed (or is the row being parsed, its node pending) and produces a node -/
+def Valid (rows : List CRow) (pd : Bool) (kg j : Nat) (c : CRow) : Prop :=
+  (j < kg ∨ (pd = true ∧ j = kg)) ∧ rows[j]? = some c ∧ isNodeRow c = true
+
+/-- `kg` rows fully processed; `pd`: the node of row `kg` is in the arena already (its edges are being
+added, its group does not exist yet) -/
+structure Rel (rows : List CRow) (M : Maps) (pd : Bool) (kg : Nat) (s : St) (st : P1) : Prop where
+  gsize : s.groups.size = gOf rows kg
+  root : s.groups[0]? = some (.block (List.range' 1 (gOf rows kg - 1)))
+  grp : ∀ j c, j < kg → rows[j]? = some c → isNodeRow c = true →
+    s.groups[gOf rows j]? = some (.row (M.nOf j :: (M.rOf j).toList) c.row.type)
+  stack : s.stack = [0]
+  ids : s.rowIds = st.ids.map (fun p => (p.1, gOf rows p.2))
+  idok : ∀ p ∈ st.ids, p.2 < kg ∧ ∃ c, rows[p.2]? = some c ∧ isNodeRow c = true
+  prev : match st.prev with
+    | none => gOf rows kg = 1
+    | some p => p < kg ∧ (∃ c, rows[p]? = some c ∧ isNodeRow c = true) ∧ gOf rows p + 1 = gOf rows kg
+  srcok : ∀ e ∈ st.out, e.src < kg ∧ ∃ c, rows[e.src]? = some c ∧ isNodeRow c = true
+  tgtok : ∀ e ∈ st.out, ∀ t, e.tgt = Target.row t → t < kg ∨ (pd = true ∧ t = kg)
+  args : s.noArgs = RefFlow.noArgsTests
+  node : ∀ j c, Valid rows pd kg j c →
+    ∃ n : NodeM, s.nodes[M.nOf j]? = some n ∧ RowSim M s.nodes n c (outOf st j) (M.rOf j)
+  disj : ∀ j c j' c', Valid rows pd kg j c → Valid rows pd kg j' c' → ∀ x, x ∈ idxs M j → x ∈ idxs M j' → j = j'
+  rne : ∀ j i', M.rOf j = some i' → i' ≠ M.nOf j
+  rnone : ∀ j, kg ≤ j → M.rOf j = none
+  rfresh : RFresh s.nodes s.next
+
+theorem Rel.inj {rows : List CRow} {M : Maps} {pd : Bool} {kg : Nat} {s : St} {st : P1} (h : Rel rows M pd kg s st)
+    (j : Nat) (c : CRow) (j' : Nat) (c' : CRow) (hv : Valid rows pd kg j c) (hv' : Valid rows pd kg j' c')
+    (e : M.nOf j = M.nOf j') : j = j' :=
+  h.disj j c j' c' hv hv' (M.nOf j) (by simp [idxs]) (by rw [e]; simp [idxs])
+
+/-- every arena index in use is below the size of the arena -/
+theorem Rel.idx_lt {rows : List CRow} {M : Maps} {pd : Bool} {kg : Nat} {s : St} {st : P1} (h : Rel rows M pd kg s st)
+    (j0 : Nat) (c0 : CRow) (hv : Valid rows pd kg j0 c0) : ∀ x ∈ idxs M j0, x < s.nodes.size := by
+  intro x hx
+  obtain ⟨m, hm, hsim⟩ := h.node j0 c0 hv
+  simp only [idxs, List.mem_cons] at hx
+  rcases hx with rfl | hx
+  · exact (Array.getElem?_eq_some_iff.mp hm).1
+  · generalize hro : M.rOf j0 = ro at hsim hx
+    cases hsim with
+    | one _ => cases hx
+    | impl i' n' r _ hp =>
+      simp only [Option.toList, List.mem_singleton] at hx
+      rw [hx]
+      exact (Array.getElem?_eq_some_iff.mp hp.rnode).1
+
+/-- one node (arena index `x`) of row `j` is replaced, keeping its identifier, so that the row accounts
+for the new out-edge -/
+theorem Rel.updateG {rows : List CRow} {M : Maps} {pd : Bool} {kg : Nat} {s s' : St} {st : P1}
+    (h : Rel rows M pd kg s st)
+    {j : Nat} {c : CRow} (new : OutEdge) (hsrc : new.src = j) (hj : j < kg)
+    (hc : rows[j]? = some c) (hnr : isNodeRow c = true)
+    (htg : ∀ t, new.tgt = Target.row t → t < kg ∨ (pd = true ∧ t = kg))
+    (x : Nat) (hx : x ∈ idxs M j) (hext : NExt s.nodes s'.nodes)
+    (hoth : ∀ i, i ≠ x → s'.nodes[i]? = s.nodes[i]?)
+    (hg : s'.groups = s.groups) (hst : s'.stack = s.stack)
+    (hri : s'.rowIds = s.rowIds) (hna : s'.noArgs = s.noArgs) (hnx : s.next ≤ s'.next)
+    (hrow : ∃ n', s'.nodes[M.nOf j]? = some n' ∧ RowSim M s'.nodes n' c (outOf st j ++ [new]) (M.rOf j))
+    (hfr : ∀ n' r, s'.nodes[x]? = some n' → n'.router = some (.rnd r) → ∀ cat ∈ r.cats, ∃ k, k < s'.next ∧ cat.uid = tid k) :
+    Rel rows M pd kg s' { st with out := new :: st.out } := by
+  refine ⟨by rw [hg]; exact h.gsize, by rw [hg]; exact h.root,
+    by rw [hg]; exact h.grp, by rw [hst]; exact h.stack, by rw [hri]; exact h.ids, h.idok, h.prev, ?_, ?_,
+    by rw [hna]; exact h.args, ?_, h.disj, h.rne, h.rnone, ?_⟩
   · intro o ho
     simp only [List.mem_cons] at ho
     rcases ho with rfl | ho
-    · rw [hsrc]; exact hj
-    · exact h.srclt o ho
-  · intro j' hj'
+    · rw [hsrc]; exact ⟨hj, c, hc, hnr⟩
+    · exact h.srcok o ho
+  · intro o ho t ht
+    simp only [List.mem_cons] at ho
+    rcases ho with rfl | ho
+    · exact htg t ht
+    · exact h.tgtok o ho t ht
+  · intro j' c' hv
     by_cases hjj : j' = j
     · subst hjj
-      refine ⟨n', c, hn', hc, ?_⟩
+      have : c' = c := by have := hv.2.1; rw [hc] at this; injection this with this; exact this.symm
+      subst this
       have := outOf_cons_same st new
       rw [hsrc] at this
-      rw [this]; exact hsim
-    · obtain ⟨m, c', hm, hc', hp'⟩ := h.node j' hj'
-      refine ⟨m, c', by rw [hoth j' hjj]; exact hm, hc', ?_⟩
+      rw [this]; exact hrow
+    · obtain ⟨m, hm, hp'⟩ := h.node j' c' hv
+      have hnotin : ∀ y, y ∈ idxs M j' → y ≠ x := by
+        intro y hy e
+        exact hjj (h.disj j' c' j c hv ⟨.inl hj, hc, hnr⟩ y hy (e ▸ hx))
+      refine ⟨m, by rw [hoth _ (hnotin _ (by simp [idxs]))]; exact hm, ?_⟩
       rw [outOf_cons_other st new j' (fun e1 => hjj (by rw [← e1, hsrc]))]
-      exact hp'.ext hext
+      refine hp'.transfer hext ?_
+      intro i hi
+      exact hoth i (hnotin i (by simp only [idxs, List.mem_cons]; exact .inr hi))
+  · unfold RFresh
+    intro i m r hm hr cat hcat
+    by_cases hij : i = x
+    · subst hij
+      exact hfr m r hm hr cat hcat
+    · rw [hoth i hij] at hm
+      obtain ⟨k, hk, e⟩ := h.rfresh i m r hm hr cat hcat
+      exact ⟨k, by omega, e⟩
 
-theorem lookup_ids (ids : List (Str × Nat)) (id : Str) :
-    ((ids.map (fun p => (p.1, p.2 + 1))).find? (·.1 = id)).map (·.2) = (lookupId ids id).map (· + 1) := by
+/-- the only node of row `j` is replaced (same identifier) by one that accounts for the new out-edge -/
+theorem Rel.update {rows : List CRow} {M : Maps} {pd : Bool} {kg : Nat} {s s' : St} {st : P1}
+    (h : Rel rows M pd kg s st)
+    {j : Nat} {n n' : NodeM} {c : CRow} (new : OutEdge) (hsrc : new.src = j) (hj : j < kg)
+    (hn : s.nodes[M.nOf j]? = some n) (hc : rows[j]? = some c) (hnr : isNodeRow c = true) (hro : M.rOf j = none)
+    (hu : n'.uid = n.uid)
+    (htg : ∀ t, new.tgt = Target.row t → t < kg ∨ (pd = true ∧ t = kg))
+    (hn' : s'.nodes[M.nOf j]? = some n') (hoth : ∀ i, i ≠ M.nOf j → s'.nodes[i]? = s.nodes[i]?)
+    (hg : s'.groups = s.groups) (hst : s'.stack = s.stack)
+    (hri : s'.rowIds = s.rowIds) (hna : s'.noArgs = s.noArgs)
+    (hsim : NodeSim M s'.nodes n' c (outOf st j ++ [new]))
+    (hnx : s.next ≤ s'.next := by first | exact Nat.le_refl _ | exact Nat.le_add_right _ _)
+    (hfr : ∀ r, n'.router = some (.rnd r) → ∀ cat ∈ r.cats, ∃ k, k < s'.next ∧ cat.uid = tid k := by
+      intro r hr; cases hr) :
+    Rel rows M pd kg s' { st with out := new :: st.out } ∧ NExt s.nodes s'.nodes := by
+  have hext : NExt s.nodes s'.nodes := by
+    intro i m hm
+    by_cases hij : i = M.nOf j
+    · subst hij; rw [hn] at hm; injection hm with hm; subst hm; exact ⟨n', hn', hu⟩
+    · exact ⟨m, by rw [hoth i hij]; exact hm, rfl⟩
+  refine ⟨Rel.updateG h new hsrc hj hc hnr htg (M.nOf j) (by simp [idxs]) hext hoth hg hst hri hna hnx
+    ⟨n', hn', by rw [hro]; exact .one hsim⟩ ?_, hext⟩
+  intro m r hm hr cat hcat
+  rw [hn'] at hm; injection hm with hm; subst hm
+  exact hfr r hr cat hcat
+
+theorem lookup_ids (rows : List CRow) (ids : List (Str × Nat)) (id : Str) :
+    ((ids.map (fun p => (p.1, gOf rows p.2))).find? (·.1 = id)).map (·.2) = (lookupId ids id).map (gOf rows) := by
   unfold lookupId
   rw [List.find?_map]
   simp [Option.map_map, Function.comp_def]
 
-theorem mostRecent_root (gs : Array Grp) (kg : Nat) (h : gs[0]? = some (.block (List.range' 1 kg))) :
-    mostRecentIn gs [0] = if kg = 0 then none else some kg := by
+theorem mostRecent_root (gs : Array Grp) (m : Nat) (h : gs[0]? = some (.block (List.range' 1 m))) :
+    mostRecentIn gs [0] = if m = 0 then none else some m := by
   simp only [mostRecentIn, h]
-  cases kg with
+  cases m with
   | zero => simp
   | succ k =>
     have : (List.range' 1 (k + 1)).getLast? = some (k + 1) := by
       rw [List.range'_concat]; simp; omega
     simp [this]
 
-theorem wp_fuelOf (s : St) (Q : Nat → St → Prop) : wp fuelOf s Q ↔ Q (2 * s.groups.size + 8) s := by
-  unfold fuelOf; wp_simp
+theorem eq_of_nodup_map {α β} (f : α → β) : ∀ (l : List α), (l.map f).Nodup → ∀ x ∈ l, ∀ y ∈ l, f x = f y → x = y := by
+  intro l
+  induction l with
+  | nil => intro _ x hx; cases hx
+  | cons a l ih =>
+    intro hnd x hx y hy e
+    rw [List.map_cons, List.nodup_cons] at hnd
+    simp only [List.mem_cons] at hx hy
+    rcases hx with rfl | hx <;> rcases hy with rfl | hy
+    · rfl
+    · exact absurd (e ▸ List.mem_map_of_mem hy) hnd.1
+    · exact absurd (e ▸ List.mem_map_of_mem hx) hnd.1
+    · exact ih hnd.2 x hx y hy e
 
-theorem wp_groupOfEdge (e : Compile.Edge) (s : St) (Q : Option Nat → St → Prop) :
-    wp (groupOfEdge e) s Q ↔
-      if e.from_ = "start".toList then Q none s
-      else if e.from_ = [] then Q (mostRecentIn s.groups s.stack) s
-      else match (s.rowIds.find? (·.1 = e.from_)).map (·.2) with
-        | some g => Q (some g) s
-        | none => True := by
-  unfold groupOfEdge lookupRow mostRecent
-  by_cases hs : e.from_ = "start".toList
-  · simp only [hs, if_true]; wp_simp
-  · by_cases hemp : e.from_ = []
-    · have : ¬ ([] : Str) = "start".toList := by decide
-      simp only [hemp, this, if_true, if_false]; wp_simp; simp
-    · simp only [hs, hemp, if_false]
-      wp_simp [List.isEmpty_iff, hemp]
-      simp only [not_false_eq_true, true_implies, not_true_eq_false, false_implies, and_true]
-      generalize Option.map (fun x => x.snd) (List.find? (fun x => decide (x.fst = e.from_)) s.rowIds) = o
-      cases o <;> wp_simp
+theorem uid_iff_name (l : List Cat) (hu : (l.map (·.uid)).Nodup) (hn : (l.map (·.name)).Nodup)
+    (c0 a : Cat) (hc0 : c0 ∈ l) (ha : a ∈ l) : a.uid = c0.uid ↔ a.name = c0.name := by
+  constructor
+  · intro e; rw [eq_of_nodup_map _ l hu a ha c0 hc0 e]
+  · intro e; rw [eq_of_nodup_map _ l hn a ha c0 hc0 e]
 
-theorem toRCond_blank (c : Compile.Cond) : (toRCond c).blank = c.blank := rfl
+theorem take7_bucket (x : Str) : ("Bucket ".toList ++ x).take 7 = "Bucket ".toList :=
+  List.take_left' (by decide)
 
-/-! ### list facts about the out-edges of one row -/
+theorem head_hash (x : Str) : ("#".toList ++ x).head? = some '#' := rfl
 
-theorem getLast?_append_singleton {α} (l : List α) (a : α) : (l ++ [a]).getLast? = some a := by
-  simp [List.getLast?_append]
+/-- the names of all categories of a deciding row -/
+theorem SwitchSim.allNames {M : Maps} {ns : Array NodeM} {n : NodeM} {c : CRow} {es : List OutEdge} {r : SwitchR}
+    (hp : SwitchSim M ns n c es r) :
+    r.allCats.map (·.name) = namesFrom (kindOf c.row.type) (timeoutOf c.row) [] (testsOf (kindOf c.row.type) es) ++
+      baseNames (kindOf c.row.type) (timeoutOf c.row) := by
+  unfold SwitchR.allCats
+  rw [List.append_assoc, List.map_append, hp.names.1, hp.names.2]
 
-theorem testsOf_append_skip (k : Kind) (es : List OutEdge) (e : OutEdge)
-    (h : e.cond.blank = true ∨ (k = .wait ∧ isNR e.cond = true)) : testsOf k (es ++ [e]) = testsOf k es := by
-  unfold testsOf
-  rw [List.filter_append, List.filter_append]
-  rcases h with h | ⟨h1, h2⟩
-  · simp [h]
-  · by_cases hb : e.cond.blank = true
-    · simp [hb]
-    · simp [hb, h1, h2]
-
-theorem testsOf_append_test (k : Kind) (es : List OutEdge) (e : OutEdge) (hb : e.cond.blank = false)
-    (h : ¬ (k = .wait ∧ isNR e.cond = true)) : testsOf k (es ++ [e]) = testsOf k es ++ [e] := by
-  unfold testsOf
-  rw [List.filter_append, List.filter_append]
-  have : (decide (k = Kind.wait) && isNR e.cond) = false := by
-    by_cases h1 : k = .wait
-    · have : isNR e.cond = false := by
-        cases hh : isNR e.cond
-        · rfl
-        · exact absurd ⟨h1, hh⟩ h
-      simp [h1, this]
-    · simp [h1]
-  simp only [Bool.and_eq_false_iff, decide_eq_false_iff_not] at this
-  simp [hb, this]
-
-theorem blanks_append_blank (es : List OutEdge) (e : OutEdge) (h : e.cond.blank = true) :
-    (es ++ [e]).filter (·.cond.blank) = es.filter (·.cond.blank) ++ [e] := by
-  simp [List.filter_append, h]
-
-theorem blanks_append_cond (es : List OutEdge) (e : OutEdge) (h : e.cond.blank = false) :
-    (es ++ [e]).filter (·.cond.blank) = es.filter (·.cond.blank) := by
-  simp [List.filter_append, h]
-
-theorem nrs_append_nr (es : List OutEdge) (e : OutEdge) (hb : e.cond.blank = false) (h : isNR e.cond = true) :
-    ((es ++ [e]).filter (fun e => !e.cond.blank)).filter (fun e => isNR e.cond) =
-      (es.filter (fun e => !e.cond.blank)).filter (fun e => isNR e.cond) ++ [e] := by
-  simp [List.filter_append, hb, h]
-
-theorem nrs_append_other (es : List OutEdge) (e : OutEdge) (h : e.cond.blank = true ∨ isNR e.cond = false) :
-    ((es ++ [e]).filter (fun e => !e.cond.blank)).filter (fun e => isNR e.cond) =
-      (es.filter (fun e => !e.cond.blank)).filter (fun e => isNR e.cond) := by
-  rcases h with h | h
-  · simp [List.filter_append, h]
-  · by_cases hb : e.cond.blank = true
-    · simp [List.filter_append, hb]
-    · simp [List.filter_append, hb, h]
-
-theorem isNR_toRCond (c : Compile.Cond) : isNR (toRCond c) = decide (Compile.lower c.value = "no response".toList) := rfl
-
-theorem set_getElem?_self {ns : Array NodeM} {j : Nat} {n : NodeM} (n' : NodeM) (hn : ns[j]? = some n) :
-    (ns.setIfInBounds j n')[j]? = some n' := by
-  simp [Array.getElem?_setIfInBounds, (Array.getElem?_eq_some_iff.mp hn).1]
-
-theorem set_getElem?_other (ns : Array NodeM) (j i : Nat) (n' : NodeM) (h : i ≠ j) :
-    (ns.setIfInBounds j n')[i]? = ns[i]? := by
-  simp [Array.getElem?_setIfInBounds, Ne.symm h]
-
-theorem switch_type_of_kind {t : Str}
-    (hk : kindOf t = .wait ∨ kindOf t = .splitValue ∨ kindOf t = .splitGroup) :
-    t = "wait_for_response".toList ∨ t = "split_by_value".toList ∨ t = "split_by_group".toList := by
-  by_cases h1 : t = "wait_for_response".toList
-  · exact .inl h1
-  by_cases h2 : t = "split_by_value".toList
-  · exact .inr (.inl h2)
-  by_cases h3 : t = "split_by_group".toList
-  · exact .inr (.inr h3)
-  exfalso
-  unfold kindOf at hk
-  rw [if_neg h1, if_neg h2, if_neg h3] at hk
-  by_cases h4 : t = "split_random".toList
-  · rw [if_pos h4] at hk; rcases hk with hk | hk | hk <;> cases hk
-  rw [if_neg h4] at hk
-  by_cases h5 : t = "start_new_flow".toList
-  · rw [if_pos h5] at hk; rcases hk with hk | hk | hk <;> cases hk
-  rw [if_neg h5] at hk
-  by_cases h6 : t = "call_webhook".toList
-  · rw [if_pos h6] at hk; rcases hk with hk | hk | hk <;> cases hk
-  rw [if_neg h6] at hk
-  by_cases h7 : t = "transfer_airtime".toList
-  · rw [if_pos h7] at hk; rcases hk with hk | hk | hk <;> cases hk
-  rw [if_neg h7] at hk
-  by_cases h8 : t = "no_op".toList
-  · rw [if_pos h8] at hk; rcases hk with hk | hk | hk <;> cases hk
-  rw [if_neg h8] at hk
-  by_cases h9 : t = "go_to".toList
-  · rw [if_pos h9] at hk; rcases hk with hk | hk | hk <;> cases hk
-  rw [if_neg h9] at hk
-  by_cases h10 : t = "hard_exit".toList
-  · rw [if_pos h10] at hk; rcases hk with hk | hk | hk <;> cases hk
-  rw [if_neg h10] at hk
-  by_cases h11 : t = "loose_exit".toList
-  · rw [if_pos h11] at hk; rcases hk with hk | hk | hk <;> cases hk
-  rw [if_neg h11] at hk
-  rcases hk with hk | hk | hk <;> cases hk
-
-theorem kindOf_wait : kindOf "wait_for_response".toList = .wait := by decide
-theorem kindOf_value : kindOf "split_by_value".toList = .splitValue := by decide
-theorem kindOf_group : kindOf "split_by_group".toList = .splitGroup := by decide
-
-theorem hasGroup_not_noArgs : RefFlow.noArgsTests.contains "has_group".toList = false := by decide
-
-theorem ne_wg : ¬ ("wait_for_response".toList = "split_by_group".toList) := by decide
-theorem ne_wv : ¬ ("wait_for_response".toList = "split_by_value".toList) := by decide
-theorem ne_vg : ¬ ("split_by_value".toList = "split_by_group".toList) := by decide
-theorem ne_gv : ¬ ("split_by_group".toList = "split_by_value".toList) := by decide
-
-/-- the test the compiler stores for a conditional edge leaving a deciding row is the reference's -/
-theorem stored_test (t : Str) (cond : Compile.Cond)
+theorem args_switch (t : Str) (cond : Compile.Cond)
     (htype : t = "wait_for_response".toList ∨ t = "split_by_value".toList ∨ t = "split_by_group".toList) :
-    ((if (if t = "split_by_group".toList then "has_group".toList else cond.type).isEmpty = true
-        then "has_any_word".toList
-        else (if t = "split_by_group".toList then "has_group".toList else cond.type)),
-      (if RefFlow.noArgsTests.contains
-          (if (if t = "split_by_group".toList then "has_group".toList else cond.type).isEmpty = true
-            then "has_any_word".toList
-            else (if t = "split_by_group".toList then "has_group".toList else cond.type)) = true
-        then ([] : List (Option Str))
-        else (if t = "split_by_group".toList then [none, some cond.value] else [some cond.value])).map (·.getD [])) =
-      refTest (kindOf t) (toRCond cond) := by
-  have hne : ("has_group".toList).isEmpty = false := by decide
-  have plain : ∀ (k : Kind), k ≠ .splitGroup →
-      ((if cond.type.isEmpty = true then "has_any_word".toList else cond.type),
-        (if RefFlow.noArgsTests.contains (if cond.type.isEmpty = true then "has_any_word".toList else cond.type) = true
-          then ([] : List (Option Str)) else [some cond.value]).map (·.getD [])) = refTest k (toRCond cond) := by
-    intro k hk
-    unfold refTest
-    rw [if_neg hk]
-    unfold RefFlow.condTest toRCond
-    simp only
-    generalize (if cond.type.isEmpty = true then "has_any_word".toList else cond.type) = ty
-    cases RefFlow.noArgsTests.contains ty <;> rfl
-  rcases htype with h | h | h
-  · subst h
-    simp only [ne_wg, if_false]
-    rw [kindOf_wait]
-    exact plain _ (by decide)
-  · subst h
-    simp only [ne_vg, if_false]
-    rw [kindOf_value]
-    exact plain _ (by decide)
-  · subst h
-    simp only [if_true, hne, Bool.false_eq_true, if_false, hasGroup_not_noArgs]
-    rw [kindOf_group]
-    rfl
+    (if t = "split_by_group".toList then [none, some cond.value] else [some cond.value] : List (Option Str)) =
+      argsOf (kindOf t) (toRCond cond) := by
+  unfold argsOf
+  rcases htype with h | h | h <;> subst h
+  · rw [if_neg ne_wg, kindOf_wait, if_neg (by decide)]; rfl
+  · rw [if_neg ne_vg, kindOf_value, if_neg (by decide)]; rfl
+  · rw [if_pos rfl, kindOf_group, if_pos rfl]; rfl
 
-/-- the operand the compiler passes to `add_choice` leaves the operand of a deciding row alone -/
-theorem operand_kept (t : Str) (cond : Compile.Cond) (n : NodeM) (r : SwitchR) (c : CRow) (hr : n.router = some (.sw r))
-    (ht : c.row.type = t)
-    (htype : t = "wait_for_response".toList ∨ t = "split_by_value".toList ∨ t = "split_by_group".toList)
-    (hvar : t = "wait_for_response".toList → cond.var = []) (hop : r.operand = operandOf c.row) :
-    (if (if t = "split_by_group".toList ∨ t = "split_by_value".toList
-          then (Compile.operandOf n, (none : Option Nat))
-          else if ¬ cond.var.isEmpty = true then (cond.var, none) else ("@input.text".toList, some 0)).1.isEmpty = true
-      then r.operand
-      else (if t = "split_by_group".toList ∨ t = "split_by_value".toList
-          then (Compile.operandOf n, (none : Option Nat))
-          else if ¬ cond.var.isEmpty = true then (cond.var, none) else ("@input.text".toList, some 0)).1) = r.operand := by
-  have hsplit : (if (Compile.operandOf n).isEmpty = true then r.operand else Compile.operandOf n) = r.operand := by
-    simp only [Compile.operandOf, hr]
-    split <;> rfl
-  rcases htype with h | h | h
-  · have hv := hvar h
-    subst h
-    rw [if_neg (show ¬ ("wait_for_response".toList = "split_by_group".toList ∨
-      "wait_for_response".toList = "split_by_value".toList) from fun hh => hh.elim ne_wg ne_wv), hv]
-    have e0 : (if ¬ ([] : Str).isEmpty = true then (([] : Str), (none : Option Nat)) else ("@input.text".toList, some 0)) =
-        ("@input.text".toList, some 0) := rfl
-    rw [e0]
-    have : ("@input.text".toList).isEmpty = false := by decide
-    show (if ("@input.text".toList).isEmpty = true then r.operand else "@input.text".toList) = r.operand
-    rw [this, if_neg (by decide : ¬ (false = true))]
-    rw [hop]; unfold CoreSheet.operandOf
-    rw [ht]
-    have e1 : ¬ ("wait_for_response".toList = "start_new_flow".toList) := by decide
-    have e2 : ¬ ("wait_for_response".toList = "call_webhook".toList) := by decide
-    have e3 : ¬ ("wait_for_response".toList = "transfer_airtime".toList) := by decide
-    rw [if_neg e1, if_neg e2, if_neg e3, if_pos rfl]
-  · subst h
-    rw [if_pos (show ("split_by_value".toList = "split_by_group".toList ∨
-      "split_by_value".toList = "split_by_value".toList) from Or.inr rfl)]
-    exact hsplit
-  · subst h
-    rw [if_pos (show ("split_by_group".toList = "split_by_group".toList ∨
-      "split_by_group".toList = "split_by_value".toList) from Or.inl rfl)]
-    exact hsplit
-
-/-! ### one out-edge, by kind of the source row -/
+theorem catByName_none_of_not_mem (r : SwitchR) (nm : Str) (h : nm ∉ r.allCats.map (·.name)) : r.catByName nm = none := by
+  cases hc : r.catByName nm with
+  | none => rfl
+  | some c0 => exact absurd ((catByName_isSome_iff r nm).mp (by simp [hc])) h
 
 section
-variable (rows : List CRow) (kg : Nat) (u : Uid) (cond : Compile.Cond) (s : St) (st : P1) (j : Nat)
+variable (rows : List CRow) (M : Maps) (pd : Bool) (kg : Nat) (d : Dest) (tgt : Target) (cond : Compile.Cond) (s : St) (st : P1) (j : Nat)
   (n : NodeM) (c : CRow)
 
 /-- the out-edge the reference records -/
-abbrev newEdge : OutEdge := { src := j, cond := toRCond cond, tgt := Target.row kg }
+abbrev newEdge : OutEdge := { src := j, cond := toRCond cond, tgt := tgt }
 
 /-- what the state must look like afterwards -/
 abbrev EdgePost : PUnit → St → Prop := fun _ s' =>
-  Rel rows (kg + 1) kg s' { st with out := newEdge kg cond j :: st.out } ∧ NExt s.nodes s'.nodes
+  Rel rows M pd kg s' { st with out := newEdge tgt cond j :: st.out } ∧ NExt s.nodes s'.nodes
 
-variable (h : Rel rows (kg + 1) kg s st) (hj : j < kg) (hn : s.nodes[j]? = some n) (hc : rows[j]? = some c)
-  (hu : ∃ m, s.nodes[kg]? = some m ∧ m.uid = u)
-include h hj hn hc hu
-
-theorem destIs_new (n' : NodeM) (next : Nat) :
-    DestIs ({ s with nodes := s.nodes.setIfInBounds j n', next := next } : St).nodes (Dest.node u)
-      (some (Target.row kg)) := by
-  obtain ⟨m, hm, hmu⟩ := hu
-  have hjk : kg ≠ j := by omega
-  exact ⟨m, by rw [set_getElem?_other _ _ _ _ hjk]; exact hm, by rw [hmu]⟩
+variable (h : Rel rows M pd kg s st) (hj : j < kg) (hn : s.nodes[M.nOf j]? = some n) (hc : rows[j]? = some c)
+  (hnode : isNodeRow c = true) (hro : M.rOf j = none)
+  (hd : DestIs M s.nodes d (some tgt)) (htg : ∀ t, tgt = Target.row t → t < kg ∨ (pd = true ∧ t = kg))
+include h hj hn hc hnode hro hd htg
 
 /-- an action row is left unconditionally: its one exit now leads to the new row -/
-theorem plain_edge_sim (hk : kindOf c.row.type = .action) (hp : PlainSim s.nodes n c.row.action (outOf st j))
+theorem plain_edge_sim (hk : kindOf c.row.type = .action) (hp : PlainSim M s.nodes n c.row.action (outOf st j))
     (he : cond.blank = true) :
-    wp (rowExitBlank j n (.node u)) s (EdgePost rows kg cond s st j) := by
+    wp (rowExitBlank (M.nOf j) n d) s (EdgePost rows M pd kg tgt cond s st j) := by
   unfold rowExitBlank
   split
   rotate_left
   · rename_i hk2; rw [hp.kind] at hk2; cases hk2
   · rename_i hk1 _; exact absurd hp.kind hk1
   wp_simp [wp_fresh', wp_setNode]
-  have hext : NExt s.nodes (s.nodes.setIfInBounds j { n with dexitUid := tid s.next, dexitDest := .node u }) :=
+  have hext : NExt s.nodes (s.nodes.setIfInBounds (M.nOf j) { n with dexitUid := tid s.next, dexitDest := d }) :=
     NExt.set hn rfl
-  refine Rel.update h (newEdge kg cond j) rfl hj hn hc (n' := { n with dexitUid := tid s.next, dexitDest := .node u })
-    rfl (set_getElem?_self _ hn) (fun i hi => set_getElem?_other _ _ _ _ hi) (by simp) rfl rfl rfl rfl ?_
-  refine .plain hk ⟨hp.kind, hp.router, hp.acts, ?_⟩
-  rw [getLast?_append_singleton]
-  exact destIs_new rows kg u s st j n c h hj hn hc hu _ _
+  refine Rel.update h (newEdge tgt cond j) rfl hj hn hc hnode hro (n' := { n with dexitUid := tid s.next, dexitDest := d })
+    rfl htg (set_getElem?_self _ hn) (fun i hi => set_getElem?_other _ _ _ _ hi) rfl rfl rfl rfl ?_
+    (hfr := fun r hr => by have h2 : n.router = some (.rnd r) := hr; rw [hp.router] at h2; cases h2)
+  refine .plain hk ⟨hp.kind, hp.router, hp.acts, ?_, ?_⟩
+  · rw [getLast?_append_singleton]
+    exact hd.ext hext
+  · intro e hmem
+    simp only [List.mem_append, List.mem_singleton] at hmem
+    rcases hmem with hmem | hmem
+    · exact hp.blank e hmem
+    · rw [hmem]; simpa [toRCond_blank] using he
 
 /-- an unconditional edge leaving a deciding row: the default category -/
 theorem sw_blank_sim (r : SwitchR) (hk : kindOf c.row.type = .wait ∨ kindOf c.row.type = .splitValue ∨ kindOf c.row.type = .splitGroup)
-    (hp : SwitchSim s.nodes n c (outOf st j) r) (he : cond.blank = true) :
-    wp (rowExitBlank j n (.node u)) s (EdgePost rows kg cond s st j) := by
+    (hp : SwitchSim M s.nodes n c (outOf st j) r) (he : cond.blank = true) :
+    wp (rowExitBlank (M.nOf j) n d) s (EdgePost rows M pd kg tgt cond s st j) := by
   unfold rowExitBlank
   split
   · rename_i hk2; rw [hp.kind] at hk2; cases hk2
@@ -426,42 +547,43 @@ theorem sw_blank_sim (r : SwitchR) (hk : kindOf c.row.type = .wait ∨ kindOf c.
   rw [hn] at hn'; injection hn' with hn'; subst hn'
   simp only [hp.router]
   wp_simp [wp_setNode]
-  have heb : (newEdge kg cond j).cond.blank = true := by simpa [toRCond_blank] using he
-  refine Rel.update h (newEdge kg cond j) rfl hj hn hc (n' := { n with router := some (.sw (r.setDflt (.node u))) })
-    rfl (set_getElem?_self _ hn) (fun i hi => set_getElem?_other _ _ _ _ hi) (by simp) rfl rfl rfl rfl ?_
-  have hext : NExt s.nodes (s.nodes.setIfInBounds j { n with router := some (.sw (r.setDflt (.node u))) }) :=
+  have heb : (newEdge tgt cond j).cond.blank = true := by simpa [toRCond_blank] using he
+  refine Rel.update h (newEdge tgt cond j) rfl hj hn hc hnode hro (n' := { n with router := some (.sw (r.setDflt d)) })
+    rfl htg (set_getElem?_self _ hn) (fun i hi => set_getElem?_other _ _ _ _ hi) rfl rfl rfl rfl ?_
+  have hext : NExt s.nodes (s.nodes.setIfInBounds (M.nOf j) { n with router := some (.sw (r.setDflt d)) }) :=
     NExt.set hn rfl
-  refine .sw (r.setDflt (.node u)) hk ⟨hp.kind, hp.acts, rfl, hp.operand, hp.rname, hp.wait, hp.nrSome, ?_, hp.casecat, ?_, ?_, ?_⟩
+  refine .sw (r.setDflt d) hk ⟨hp.kind, hp.acts, rfl, hp.operand, hp.rname, hp.wait, hp.nrSome, ?_, hp.casecat, ?_, ?_, ?_,
+    ⟨by rw [testsOf_append_skip _ _ _ (.inl heb)]; exact hp.names.1, hp.names.2⟩⟩
   · rw [testsOf_append_skip _ _ _ (.inl heb)]; exact hp.cases
   · rw [testsOf_append_skip _ _ _ (.inl heb)]
     exact hp.catd.imp (fun _ _ hd => hd.ext hext)
   · rw [blanks_append_blank _ _ heb, getLast?_append_singleton]
-    have := destIs_new rows kg u s st j n c h hj hn hc hu { n with router := some (.sw (r.setDflt (.node u))) } s.next
-    simpa [SwitchR.setDflt] using this
+    exact hd.ext hext
   · intro nr hnr
     rw [nrs_append_other _ _ (.inl heb)]
     exact (hp.nr nr hnr).ext hext
 
 /-- a "no response" edge leaving a `wait_for_response` row: the timeout category (or, without
 timeout, nothing — on both sides) -/
-theorem sw_nr_sim (r : SwitchR) (hk : kindOf c.row.type = .wait) (hp : SwitchSim s.nodes n c (outOf st j) r)
+theorem sw_nr_sim (r : SwitchR) (hk : kindOf c.row.type = .wait) (hp : SwitchSim M s.nodes n c (outOf st j) r)
     (he : cond.blank = false) (hnr : Compile.lower cond.value = "no response".toList) :
-    wp (rowExitNoResp j n (.node u)) s (EdgePost rows kg cond s st j) := by
-  have heb : (newEdge kg cond j).cond.blank = false := by simpa [toRCond_blank] using he
-  have hnr' : isNR (newEdge kg cond j).cond = true := by simp [isNR_toRCond, hnr]
-  have htests : testsOf (kindOf c.row.type) (outOf st j ++ [newEdge kg cond j]) = testsOf (kindOf c.row.type) (outOf st j) :=
+    wp (rowExitNoResp (M.nOf j) n d) s (EdgePost rows M pd kg tgt cond s st j) := by
+  have heb : (newEdge tgt cond j).cond.blank = false := by simpa [toRCond_blank] using he
+  have hnr' : isNR (newEdge tgt cond j).cond = true := by simp [isNR_toRCond, hnr]
+  have htests : testsOf (kindOf c.row.type) (outOf st j ++ [newEdge tgt cond j]) = testsOf (kindOf c.row.type) (outOf st j) :=
     testsOf_append_skip _ _ _ (.inr ⟨hk, hnr'⟩)
   unfold rowExitNoResp
   simp only [hp.router]
   split
   · rename_i nr w hnoresp hwait
     wp_simp [wp_setNode]
-    have hext : NExt s.nodes (s.nodes.setIfInBounds j
-        { n with router := some (.sw { r with noResp := some { nr with dest := .node u } }) }) := NExt.set hn rfl
-    refine Rel.update h (newEdge kg cond j) rfl hj hn hc
-      (n' := { n with router := some (.sw { r with noResp := some { nr with dest := .node u } }) })
-      rfl (set_getElem?_self _ hn) (fun i hi => set_getElem?_other _ _ _ _ hi) (by simp) rfl rfl rfl rfl ?_
-    refine .sw _ (.inl hk) ⟨hp.kind, hp.acts, rfl, hp.operand, hp.rname, hp.wait, ?_, ?_, hp.casecat, ?_, ?_, ?_⟩
+    have hext : NExt s.nodes (s.nodes.setIfInBounds (M.nOf j)
+        { n with router := some (.sw { r with noResp := some { nr with dest := d } }) }) := NExt.set hn rfl
+    refine Rel.update h (newEdge tgt cond j) rfl hj hn hc hnode hro
+      (n' := { n with router := some (.sw { r with noResp := some { nr with dest := d } }) })
+      rfl htg (set_getElem?_self _ hn) (fun i hi => set_getElem?_other _ _ _ _ hi) rfl rfl rfl rfl ?_
+    refine .sw _ (.inl hk) ⟨hp.kind, hp.acts, rfl, hp.operand, hp.rname, hp.wait, ?_, ?_, hp.casecat, ?_, ?_, ?_,
+      ⟨by rw [htests]; exact hp.names.1, by have := hp.names.2; rw [hnoresp] at this; exact this⟩⟩
     · simp only [Option.isSome_some, true_iff]; exact ⟨w, hwait⟩
     · rw [htests]; exact hp.cases
     · rw [htests]; exact hp.catd.imp (fun _ _ hd => hd.ext hext)
@@ -470,7 +592,7 @@ theorem sw_nr_sim (r : SwitchR) (hk : kindOf c.row.type = .wait) (hp : SwitchSim
       simp only [Option.some.injEq] at hnr''
       subst hnr''
       rw [nrs_append_nr _ _ heb hnr', getLast?_append_singleton]
-      exact destIs_new rows kg u s st j n c h hj hn hc hu _ s.next
+      exact hd.ext hext
   · rename_i hnot
     wp_simp
     have hnone : r.noResp = none := by
@@ -479,8 +601,10 @@ theorem sw_nr_sim (r : SwitchR) (hk : kindOf c.row.type = .wait) (hp : SwitchSim
       | some nr =>
         obtain ⟨m, hm⟩ := hp.nrSome.mp (by simp [hnoresp])
         exact absurd hm (by intro hm; exact hnot nr m hnoresp hm)
-    refine Rel.update h (newEdge kg cond j) rfl hj hn hc (n' := n) rfl hn (fun i _ => rfl) rfl rfl rfl rfl rfl ?_
-    refine .sw r (.inl hk) ⟨hp.kind, hp.acts, hp.router, hp.operand, hp.rname, hp.wait, hp.nrSome, ?_, hp.casecat, ?_, ?_, ?_⟩
+    refine Rel.update h (newEdge tgt cond j) rfl hj hn hc hnode hro (n' := n) rfl htg hn (fun i _ => rfl) rfl rfl rfl rfl ?_
+      (hfr := fun r hr => by have h2 : n.router = some (.rnd r) := hr; rw [hp.router] at h2; cases h2)
+    refine .sw r (.inl hk) ⟨hp.kind, hp.acts, hp.router, hp.operand, hp.rname, hp.wait, hp.nrSome, ?_, hp.casecat, ?_, ?_, ?_,
+      ⟨by rw [htests]; exact hp.names.1, hp.names.2⟩⟩
     · rw [htests]; exact hp.cases
     · rw [htests]; exact hp.catd
     · rw [blanks_append_cond _ _ heb]; exact hp.dflt
@@ -488,20 +612,22 @@ theorem sw_nr_sim (r : SwitchR) (hk : kindOf c.row.type = .wait) (hp : SwitchSim
 
 /-- a test edge leaving a deciding row: a new case and a new category at the end -/
 theorem sw_test_sim (r : SwitchR) (hk : kindOf c.row.type = .wait ∨ kindOf c.row.type = .splitValue ∨ kindOf c.row.type = .splitGroup)
-    (hp : SwitchSim s.nodes n c (outOf st j) r) (he : cond.blank = false)
+    (hp : SwitchSim M s.nodes n c (outOf st j) r) (he : cond.blank = false)
     (hnr : kindOf c.row.type = .wait → Compile.lower cond.value ≠ "no response".toList)
     (hnrs : (kindOf c.row.type = .splitValue ∨ kindOf c.row.type = .splitGroup) →
       Compile.lower cond.value ≠ "no response".toList)
-    (hvar : kindOf c.row.type = .wait → cond.var = []) (hname : cond.name = [])
-    (hdist : ((testsOf (kindOf c.row.type) (outOf st j ++ [newEdge kg cond j])).map
+    (hvar : kindOf c.row.type = .wait → cond.var = [])
+    (hfreeN : cond.name ≠ [] → cond.name ∉ namesFrom (kindOf c.row.type) (timeoutOf c.row) []
+      (testsOf (kindOf c.row.type) (outOf st j)) ++ baseNames (kindOf c.row.type) (timeoutOf c.row))
+    (hdist : ((testsOf (kindOf c.row.type) (outOf st j ++ [newEdge tgt cond j])).map
       (fun e => refTest (kindOf c.row.type) e.cond)).Nodup) :
-    wp (rowExitCond (j + 1) [j] c.row.type j n (.node u) cond) s (EdgePost rows kg cond s st j) := by
-  have heb : (newEdge kg cond j).cond.blank = false := by simpa [toRCond_blank] using he
-  have hnotnr : ¬ (kindOf c.row.type = .wait ∧ isNR (newEdge kg cond j).cond = true) := by
+    wp (rowExitCond (gOf rows j) [M.nOf j] c.row.type (M.nOf j) n d cond) s (EdgePost rows M pd kg tgt cond s st j) := by
+  have heb : (newEdge tgt cond j).cond.blank = false := by simpa [toRCond_blank] using he
+  have hnotnr : ¬ (kindOf c.row.type = .wait ∧ isNR (newEdge tgt cond j).cond = true) := by
     rintro ⟨h1, h2⟩
     simp only [isNR_toRCond, decide_eq_true_eq] at h2
     exact hnr h1 h2
-  have htests := testsOf_append_test (kindOf c.row.type) (outOf st j) (newEdge kg cond j) heb hnotnr
+  have htests := testsOf_append_test (kindOf c.row.type) (outOf st j) (newEdge tgt cond j) heb hnotnr
   rw [htests, List.map_append, List.nodup_append] at hdist
   -- the type of the row decides how the condition is read
   have htype := switch_type_of_kind hk
@@ -510,28 +636,33 @@ theorem sw_test_sim (r : SwitchR) (hk : kindOf c.row.type = .wait ∨ kindOf c.r
   simp only [hnb, if_false]
   wp_simp
   unfold nodeAddChoice
-  simp only [hp.router, hname]
+  simp only [hp.router]
   wp_simp [wp_setNode]
   -- the stored test is the reference's test
   have hstored0 := stored_test c.row.type cond htype
+  have hargs0 := args_switch c.row.type cond htype
   generalize hty : (if (if c.row.type = "split_by_group".toList then "has_group".toList else cond.type).isEmpty = true
       then "has_any_word".toList
       else (if c.row.type = "split_by_group".toList then "has_group".toList else cond.type)) = ty at hstored0 ⊢
   generalize hargs : (if c.row.type = "split_by_group".toList then [none, some cond.value] else [some cond.value] :
-      List (Option Str)) = args at hstored0 ⊢
+      List (Option Str)) = args at hstored0 hargs0 ⊢
   have hstored : (ty, (if s.noArgs.contains ty then [] else args).map (·.getD [])) =
-      refTest (kindOf c.row.type) (newEdge kg cond j).cond := by
+      refTest (kindOf c.row.type) (newEdge tgt cond j).cond := by
     rw [h.args]; exact hstored0
-  refine addChoice_new r _ ty args (.node u) s ?_ _ ?_
+  refine addChoice_any r _ ty args cond.name d s ?_ ?_ _ ?_
   · -- no case with this test yet
     intro k hkm ⟨e1, e2⟩
     have hmem : (k.type, k.args.map (·.getD [])) ∈ r.cases.map (fun k => (k.type, k.args.map (·.getD []))) :=
       List.mem_map_of_mem hkm
     rw [hp.cases] at hmem
-    have : (k.type, k.args.map (·.getD [])) = refTest (kindOf c.row.type) (newEdge kg cond j).cond := by
+    have : (k.type, k.args.map (·.getD [])) = refTest (kindOf c.row.type) (newEdge tgt cond j).cond := by
       rw [← hstored, e1, e2]
     rw [this] at hmem
     exact hdist.2.2 _ hmem _ (by simp) rfl
+  · -- an explicit category name is not in use
+    intro hne
+    refine catByName_none_of_not_mem r _ ?_
+    rw [hp.allNames]; exact hfreeN hne
   · intro _
     wp_simp [wp_setNode]
     -- the operand does not change
@@ -542,34 +673,48 @@ theorem sw_test_sim (r : SwitchR) (hk : kindOf c.row.type = .wait ∨ kindOf c.r
         else if ¬ cond.var.isEmpty = true then (cond.var, none) else ("@input.text".toList, some 0)).1 = op at hopd0 ⊢
     have hopd : (if op.isEmpty = true then r.operand else op) = r.operand := hopd0
     rw [hopd]
+    -- the name of the new category
+    obtain ⟨nm, hnm⟩ : ∃ nm : Str, nm = if cond.name.isEmpty = true
+        then genCatName (if op.isEmpty = true then r else { r with operand := op }) args else cond.name := ⟨_, rfl⟩
+    rw [← hnm]
+    have hnm2 : nm = catNameOf (kindOf c.row.type) (timeoutOf c.row)
+        (namesFrom (kindOf c.row.type) (timeoutOf c.row) [] (testsOf (kindOf c.row.type) (outOf st j))) (newEdge tgt cond j).cond := by
+      rw [hnm]
+      unfold catNameOf
+      have e0 : (newEdge tgt cond j).cond.name = cond.name := rfl
+      rw [e0, genCatName_eq, ← hargs0]
+      have e1 : (if op.isEmpty = true then r else { r with operand := op }).allCats = r.allCats := by split <;> rfl
+      rw [e1, hp.allNames]
     obtain ⟨r', hr'⟩ : ∃ r' : SwitchR, r' = { r with
-        cats := r.cats ++ [{ uid := tid s.next, name := genCatName (if op.isEmpty = true then r else { r with operand := op }) args,
-                             exitUid := tid (s.next + 1), dest := .node u }],
-        cases := r.cases ++ [{ uid := tid (s.next + 2), type := ty,
-                               args := if s.noArgs.contains ty = true then [] else args, catUid := tid s.next }] } := ⟨_, rfl⟩
+        cats := r.cats ++ [Cat.mk (tid s.next) nm (tid (s.next + 1)) d],
+        cases := r.cases ++ [Case.mk (tid (s.next + 2)) ty (if s.noArgs.contains ty = true then [] else args) (tid s.next)] } := ⟨_, rfl⟩
     have hr'' : ({ r with
         operand := r.operand,
-        cats := r.cats ++ [{ uid := tid s.next, name := genCatName (if op.isEmpty = true then r else { r with operand := op }) args,
-                             exitUid := tid (s.next + 1), dest := .node u }],
+        cats := r.cats ++ [{ uid := tid s.next, name := nm, exitUid := tid (s.next + 1), dest := d }],
         cases := r.cases ++ [{ uid := tid (s.next + 2), type := ty,
                                args := if s.noArgs.contains ty = true then [] else args, catUid := tid s.next }] } : SwitchR) = r' := by
       rw [hr']
     rw [hr'']
-    have hext : NExt s.nodes (s.nodes.setIfInBounds j { n with router := some (.sw r') }) := NExt.set hn rfl
-    refine Rel.update h (newEdge kg cond j) rfl hj hn hc (n' := { n with router := some (.sw r') })
-      rfl (set_getElem?_self _ hn) (fun i hi => set_getElem?_other _ _ _ _ hi) (by simp) rfl rfl rfl rfl ?_
-    have fcats : ∃ nm, r'.cats = r.cats ++ [{ uid := tid s.next, name := nm, exitUid := tid (s.next + 1), dest := .node u }] :=
-      ⟨_, by rw [hr']⟩
+    have hext : NExt s.nodes (s.nodes.setIfInBounds (M.nOf j) { n with router := some (.sw r') }) := NExt.set hn rfl
+    refine Rel.update h (newEdge tgt cond j) rfl hj hn hc hnode hro (n' := { n with router := some (.sw r') })
+      rfl htg (set_getElem?_self _ hn) (fun i hi => set_getElem?_other _ _ _ _ hi) rfl rfl rfl rfl ?_
+    have fcats : r'.cats = r.cats ++ [{ uid := tid s.next, name := nm, exitUid := tid (s.next + 1), dest := d }] := by
+      rw [hr']
     have fcases : r'.cases = r.cases ++ [{ uid := tid (s.next + 2), type := ty, args := if s.noArgs.contains ty = true then [] else args, catUid := tid s.next }] := by
       rw [hr']
-    obtain ⟨nm, fcats⟩ := fcats
     have fop : r'.operand = r.operand := by rw [hr']
     have frn : r'.resultName = r.resultName := by rw [hr']
     have fw : r'.wait = r.wait := by rw [hr']
     have fnr : r'.noResp = r.noResp := by rw [hr']
     have fd : r'.dflt = r.dflt := by rw [hr']
     refine .sw r' hk ⟨hp.kind, hp.acts, rfl, by rw [fop]; exact hp.operand, by rw [frn]; exact hp.rname,
-      by rw [fw]; exact hp.wait, by rw [fnr, fw]; exact hp.nrSome, ?_, ?_, ?_, ?_, ?_⟩
+      by rw [fw]; exact hp.wait, by rw [fnr, fw]; exact hp.nrSome, ?_, ?_, ?_, ?_, ?_, ?_⟩
+    rotate_right
+    · constructor
+      · rw [fcats, htests, namesFrom_append, List.map_append, hp.names.1]
+        simp only [List.map_cons, List.map_nil, namesFrom]
+        rw [hnm2]
+      · rw [fd, fnr]; exact hp.names.2
     · rw [htests, fcases]
       simp only [List.map_append, List.map_cons, List.map_nil, hp.cases]
       rw [hstored]
@@ -577,13 +722,13 @@ theorem sw_test_sim (r : SwitchR) (hk : kindOf c.row.type = .wait ∨ kindOf c.r
     · rw [htests, fcats]
       refine List.rel_append (hp.catd.imp (fun _ _ hd => hd.ext hext)) ?_
       refine List.Forall₂.cons ?_ List.Forall₂.nil
-      exact destIs_new rows kg u s st j n c h hj hn hc hu _ (s.next + 3)
+      exact hd.ext hext
     · rw [blanks_append_cond _ _ heb, fd]; exact hp.dflt.ext hext
     · intro nr hnr''
       rw [fnr] at hnr''
-      have hother : (newEdge kg cond j).cond.blank = true ∨ isNR (newEdge kg cond j).cond = false := by
+      have hother : (newEdge tgt cond j).cond.blank = true ∨ isNR (newEdge tgt cond j).cond = false := by
         right
-        cases hh : isNR (newEdge kg cond j).cond
+        cases hh : isNR (newEdge tgt cond j).cond
         · rfl
         · -- a split row is never left by a "no response" edge, a wait row's would not be a test
           simp only [isNR_toRCond, decide_eq_true_eq] at hh
@@ -594,615 +739,289 @@ theorem sw_test_sim (r : SwitchR) (hk : kindOf c.row.type = .wait ∨ kindOf c.r
       rw [nrs_append_other _ _ hother]
       exact (hp.nr nr hnr'').ext hext
 
-end
-
-/-! ### the single-meaning conditions, read off the reference's out-edges -/
-
-/-- `outF`: all out-edges pass 1 records for the sheet -/
-structure Good (rows : List CRow) (outF : List OutEdge) : Prop where
-  ok : ∀ e ∈ outF, edgeOk rows e = true
-  dist : ∀ (j : Nat) (c : CRow), rows[j]? = some c →
-    ((testsOf (kindOf c.row.type) (outF.filter (·.src = j))).map (fun e => refTest (kindOf c.row.type) e.cond)).Nodup
-
-theorem Good.nodup_prefix {rows : List CRow} {outF l : List OutEdge} (g : Good rows outF) (hl : l <+: outF)
-    (j : Nat) (c : CRow) (hc : rows[j]? = some c) :
-    ((testsOf (kindOf c.row.type) (l.filter (·.src = j))).map (fun e => refTest (kindOf c.row.type) e.cond)).Nodup := by
-  refine List.Nodup.sublist ?_ (g.dist j c hc)
-  unfold testsOf
-  exact ((((hl.filter _).filter _).filter _).map _).sublist
-
-/-- one out-edge from row `j` to the row being processed -/
-theorem addExit_sim (rows : List CRow) (outF : List OutEdge) (g : Good rows outF) (kg : Nat) (u : Uid)
-    (cond : Compile.Cond) (s : St) (st : P1) (j : Nat) (h : Rel rows (kg + 1) kg s st) (hj : j < kg)
-    (hu : ∃ m, s.nodes[kg]? = some m ∧ m.uid = u)
-    (hpre : (newEdge kg cond j :: st.out).reverse <+: outF) :
-    wp (addExit (2 * s.groups.size + 8) (j + 1) (.node u) cond) s (EdgePost rows kg cond s st j) := by
-  obtain ⟨cg, hcg, hg⟩ := h.grp j hj
-  obtain ⟨n, c, hn, hc, hsim⟩ := h.node j (by omega)
-  rw [hcg] at hc; injection hc with hc; subst hc
-  have hc := hcg
-  -- what the single-meaning conditions say about this edge
-  have hok : edgeOk rows (newEdge kg cond j) = true :=
-    g.ok _ (hpre.subset (by simp))
-  have hdist := g.nodup_prefix hpre j cg hc
-  have hfil : (newEdge kg cond j :: st.out).reverse.filter (·.src = j) = outOf st j ++ [newEdge kg cond j] := by
-    simp [outOf, List.filter_append]
-  rw [hfil] at hdist
-  simp only [edgeOk, hc, Option.map_some, toRCond_blank, Bool.or_eq_true] at hok
-  have hfuel : 2 * s.groups.size + 8 = (2 * s.groups.size + 7) + 1 := by omega
-  rw [hfuel]
-  unfold addExit
-  wp_simp [wp_getGrp]
-  intro grp hgrp
-  rw [hg] at hgrp; injection hgrp with hgrp; subst hgrp
-  simp only
-  unfold rowAddExit
-  simp only [List.getLast?_singleton]
+/-- an edge naming the first outcome (Complete / Success) of a fixed-outcome row -/
+theorem fix_succ_sim (r : SwitchR) (sc : Cat) (hk : isFixedKind (kindOf c.row.type))
+    (hp : FixSim M s.nodes n c (outOf st j) r sc)
+    (hs : isSucc (kindOf c.row.type) (newEdge tgt cond j) = true)
+    (hf : isFail (kindOf c.row.type) (newEdge tgt cond j) = false) :
+    wp (updSwitch (M.nOf j) fun r => setCatDestByName r (succName (kindOf c.row.type)) d) s
+      (EdgePost rows M pd kg tgt cond s st j) := by
+  unfold updSwitch
   wp_simp [wp_getNode]
   intro n' hn'
   rw [hn] at hn'; injection hn' with hn'; subst hn'
-  cases hsim with
-  | plain hk hp =>
-    have he : cond.blank = true := by
-      rcases hok with hok | hok
-      · exact hok
-      · rw [hk] at hok; simp at hok
-    have hkr : n.kind ≠ NodeKind.random := by rw [hp.kind]; intro hh; cases hh
-    refine ⟨fun _ => plain_edge_sim rows kg u cond s st j n cg h hj hn hc hu hk hp he, fun hh => absurd ⟨he, hkr⟩ hh⟩
-  | sw r hk hp =>
-    have hkr : n.kind ≠ NodeKind.random := by rw [hp.kind]; intro hh; cases hh
-    have hke : n.kind ≠ NodeKind.enter := by rw [hp.kind]; intro hh; cases hh
-    have hkw : ¬ (n.kind = NodeKind.webhook ∨ n.kind = NodeKind.airtime) := by
-      rw [hp.kind]; rintro (hh | hh) <;> cases hh
-    by_cases he : cond.blank = true
-    · exact ⟨fun _ => sw_blank_sim rows kg u cond s st j n cg h hj hn hc hu r hk hp he, fun hh => absurd ⟨he, hkr⟩ hh⟩
-    · have he' : cond.blank = false := by simpa using he
-      refine ⟨fun hh => absurd hh.1 he, fun _ => ⟨fun hh => absurd hh hke, fun _ => ⟨fun hh => absurd hh hkw, fun _ => ?_⟩⟩⟩
-      have hok' : (match some (kindOf cg.row.type) with
-          | some .wait => (toRCond cond).var.isEmpty && (toRCond cond).name.isEmpty
-          | some .splitValue => !isNR (toRCond cond) && (toRCond cond).name.isEmpty
-          | some .splitGroup => !isNR (toRCond cond) && (toRCond cond).name.isEmpty
-          | _ => false) = true := by
-        rcases hok with hok | hok
-        · exact absurd hok he
-        · exact hok
-      by_cases hnr : Compile.lower cond.value = "no response".toList
-      · -- only a wait row can be left by a "no response" edge
-        have hkwait : kindOf cg.row.type = .wait := by
-          rcases hk with h1 | h1 | h1
-          · exact h1
-          · rw [h1] at hok'; simp [isNR_toRCond, hnr] at hok'
-          · rw [h1] at hok'; simp [isNR_toRCond, hnr] at hok'
-        exact ⟨fun _ => sw_nr_sim rows kg u cond s st j n cg h hj hn hc hu r hkwait hp he' hnr,
-          fun hh => absurd ⟨hp.kind, hnr⟩ hh⟩
-      · refine ⟨fun hh => absurd hh.2 hnr, fun _ => ?_⟩
-        have hname : cond.name = [] := by
-          rcases hk with h1 | h1 | h1 <;> rw [h1] at hok' <;>
-            simp only [Bool.and_eq_true, List.isEmpty_iff, toRCond] at hok' <;> exact hok'.2
-        have hvar : kindOf cg.row.type = .wait → cond.var = [] := by
-          intro h1; rw [h1] at hok'
-          simp only [Bool.and_eq_true, List.isEmpty_iff, toRCond] at hok'; exact hok'.1
-        exact sw_test_sim rows kg u cond s st j n cg h hj hn hc hu r hk hp he' (fun _ => hnr) (fun _ => hnr) hvar hname hdist
+  simp only [hp.router]
+  have hfind : r.catByName (succName (kindOf c.row.type)) = some sc := by
+    unfold SwitchR.catByName SwitchR.allCats
+    rw [hp.cats]
+    simp [List.find?_cons, hp.sname]
+  unfold setCatDestByName
+  rw [hfind]
+  wp_simp [wp_setNode]
+  have hr' : r.setDest sc.uid d = { r with cats := [{ sc with dest := d }] } := by
+    unfold SwitchR.setDest SwitchR.mapCats
+    rw [hp.cats, hp.noResp]
+    have : ¬ (r.dflt.uid = sc.uid) := fun e => hp.uidne e.symm
+    simp [this]
+  rw [hr']
+  have hext : NExt s.nodes (s.nodes.setIfInBounds (M.nOf j)
+      { n with router := some (.sw { r with cats := [{ sc with dest := d }] }) }) := NExt.set hn rfl
+  refine Rel.update h (newEdge tgt cond j) rfl hj hn hc hnode hro
+    (n' := { n with router := some (.sw { r with cats := [{ sc with dest := d }] }) })
+    rfl htg (set_getElem?_self _ hn) (fun i hi => set_getElem?_other _ _ _ _ hi) rfl rfl rfl rfl ?_
+  refine .fix { r with cats := [{ sc with dest := d }] } { sc with dest := d } hk
+    ⟨hp.kind, hp.acts, rfl, hp.operand, hp.rname, hp.wait, hp.noResp, rfl, hp.sname,
+      hp.uidne, hp.cases, ?_, ?_⟩
+  · rw [List.filter_append]
+    simp only [List.filter_cons, hs, if_true, List.filter_nil]
+    rw [getLast?_append_singleton]
+    exact hd.ext hext
+  · rw [List.filter_append]
+    simp only [List.filter_cons, hf, Bool.false_eq_true, if_false, List.filter_nil, List.append_nil]
+    exact hp.dflt.ext hext
 
-/-- one edge of the row being processed (node `kg`, identifier `u`): the compiler machine and pass 1
-stay related -/
-theorem edge_sim (rows : List CRow) (outF : List OutEdge) (g : Good rows outF) (kg : Nat) (u : Uid)
-    (e : Compile.Edge) (s : St) (st st' : P1) (h : Rel rows (kg + 1) kg s st)
-    (hu : ∃ m, s.nodes[kg]? = some m ∧ m.uid = u)
-    (hst : (match edgeSrc st kg (toREdge e) with
-      | .error err => Except.error err
-      | .ok none => .ok st
-      | .ok (some j) => .ok { st with out := { src := j, cond := toRCond e.cond, tgt := Target.row kg } :: st.out })
-        = .ok st')
-    (hpre : st'.out.reverse <+: outF) :
-    wp (addRowEdge (.node u) e) s (fun _ s' => Rel rows (kg + 1) kg s' st' ∧ NExt s.nodes s'.nodes) := by
-  -- the source group on the compiler side, the source row on the reference side
-  have key : ∀ j, edgeSrc st kg (toREdge e) = .ok (some j) → j < kg →
-      wp (addExit (2 * s.groups.size + 8) (j + 1) (.node u) e.cond) s (fun _ s' =>
-        Rel rows (kg + 1) kg s' st' ∧ NExt s.nodes s'.nodes) := by
-    intro j hsrc hj
-    rw [hsrc] at hst
-    simp only [Except.ok.injEq] at hst
-    subst hst
-    exact addExit_sim rows outF g kg u e.cond s st j h hj hu hpre
-  unfold addRowEdge
-  wp_simp [wp_groupOfEdge, wp_fuelOf]
-  by_cases hs : e.from_ = "start".toList
-  · -- no edge
-    have : edgeSrc st kg (toREdge e) = .ok none := by simp [edgeSrc, toREdge, hs]
-    rw [this] at hst; injection hst with hst; subst hst
-    rw [if_pos hs]
-    exact ⟨h, NExt.refl _⟩
-  · rw [if_neg hs]
-    by_cases hemp : e.from_ = []
-    · -- blank `from`: the previous row
-      have hsrc : edgeSrc st kg (toREdge e) = .ok st.prev := by
-        simp only [edgeSrc, toREdge, hs, hemp, List.isEmpty_nil, if_true, if_false]
-        cases st.prev <;> rfl
-      rw [if_pos hemp, h.stack, mostRecent_root s.groups kg h.root]
-      by_cases hk0 : kg = 0
-      · have hsrc2 : edgeSrc st kg (toREdge e) = .ok none := by rw [hsrc, h.prev]; simp [hk0]
-        rw [hsrc2] at hst
-        simp only [hk0, if_true] at hst ⊢
-        injection hst with hst; subst hst
-        exact ⟨hk0 ▸ h, NExt.refl _⟩
-      · have hsrc2 : edgeSrc st kg (toREdge e) = .ok (some (kg - 1)) := by rw [hsrc, h.prev]; simp [hk0]
-        simp only [hk0, if_false]
-        wp_simp [wp_fuelOf]
-        have := key (kg - 1) hsrc2 (by omega)
-        have e1 : kg - 1 + 1 = kg := by omega
-        rw [e1] at this
-        exact this
-    · -- explicit `from`
-      have hsrc : edgeSrc st kg (toREdge e) =
-          match lookupId st.ids e.from_ with
-          | some j => .ok (some j)
-          | none => .error (.unknownFrom kg e.from_) := by
-        simp only [edgeSrc, toREdge, hs, if_false, List.isEmpty_iff, hemp]
-        rfl
-      rw [if_neg hemp, h.ids, lookup_ids]
-      cases hl : lookupId st.ids e.from_ with
-      | none => simp only [Option.map_none]
-      | some j =>
-        simp only [Option.map_some]
-        obtain ⟨p, hp, hpj⟩ := lookupId_mem hl
-        exact key j (by rw [hsrc, hl]) (hpj ▸ h.idlt p hp)
+/-- an edge naming the other outcome (Expired / Failure; for `call_webhook` / `transfer_airtime`
+also an unconditional edge) of a fixed-outcome row -/
+theorem fix_fail_sim (r : SwitchR) (sc : Cat) (hk : isFixedKind (kindOf c.row.type))
+    (hp : FixSim M s.nodes n c (outOf st j) r sc)
+    (hs : isSucc (kindOf c.row.type) (newEdge tgt cond j) = false)
+    (hf : isFail (kindOf c.row.type) (newEdge tgt cond j) = true) :
+    wp (updSwitch (M.nOf j) (setDfltM d)) s (EdgePost rows M pd kg tgt cond s st j) := by
+  unfold updSwitch setDfltM
+  wp_simp [wp_getNode]
+  intro n' hn'
+  rw [hn] at hn'; injection hn' with hn'; subst hn'
+  simp only [hp.router]
+  wp_simp [wp_setNode]
+  have hext : NExt s.nodes (s.nodes.setIfInBounds (M.nOf j) { n with router := some (.sw (r.setDflt d)) }) :=
+    NExt.set hn rfl
+  refine Rel.update h (newEdge tgt cond j) rfl hj hn hc hnode hro (n' := { n with router := some (.sw (r.setDflt d)) })
+    rfl htg (set_getElem?_self _ hn) (fun i hi => set_getElem?_other _ _ _ _ hi) rfl rfl rfl rfl ?_
+  refine .fix (r.setDflt d) sc hk
+    ⟨hp.kind, hp.acts, rfl, hp.operand, hp.rname, hp.wait, hp.noResp, hp.cats, hp.sname, hp.uidne, hp.cases, ?_, ?_⟩
+  · rw [List.filter_append]
+    simp only [List.filter_cons, hs, Bool.false_eq_true, if_false, List.filter_nil, List.append_nil]
+    exact hp.succ.ext hext
+  · rw [List.filter_append]
+    simp only [List.filter_cons, hf, if_true, List.filter_nil]
+    rw [getLast?_append_singleton]
+    exact hd.ext hext
 
-/-! ### all edges of a row -/
-
-/-- what pass 1 does with one edge -/
-def edgeStep (st : P1) (k : Nat) (e : REdge) (t : Target) : Except WfErr P1 :=
-  match edgeSrc st k e with
-  | .error err => .error err
-  | .ok none => .ok st
-  | .ok (some j) => .ok { st with out := { src := j, cond := e.cond, tgt := t } :: st.out }
-
-theorem addEdges_nil (st : P1) (k : Nat) : addEdges st k [] = .ok st := rfl
-
-theorem addEdges_cons (st : P1) (k : Nat) (e : REdge) (t : Target) (es : List (REdge × Target)) :
-    addEdges st k ((e, t) :: es) =
-      match edgeStep st k e t with
-      | .error err => .error err
-      | .ok st1 => addEdges st1 k es := by
-  simp only [addEdges, List.foldlM_cons, edgeStep, bind, Except.bind]
-  cases edgeSrc st k e with
-  | error err => rfl
-  | ok o => cases o <;> rfl
-
-theorem edgeStep_prefix {st st1 : P1} {k : Nat} {e : REdge} {t : Target} (h : edgeStep st k e t = .ok st1) :
-    st.out.reverse <+: st1.out.reverse ∧ st1.ids = st.ids ∧ st1.prev = st.prev := by
-  unfold edgeStep at h
-  split at h
-  · cases h
-  · injection h with h; subst h; exact ⟨List.prefix_rfl, rfl, rfl⟩
-  · injection h with h; subst h
-    exact ⟨by simp only [List.reverse_cons]; exact List.prefix_append _ _, rfl, rfl⟩
-
-theorem addEdges_prefix : ∀ (es : List (REdge × Target)) (st st' : P1) (k : Nat),
-    addEdges st k es = .ok st' → st.out.reverse <+: st'.out.reverse := by
-  intro es
-  induction es with
-  | nil => intro st st' k h; rw [addEdges_nil] at h; injection h with h; subst h; exact List.prefix_rfl
-  | cons p es ih =>
-    intro st st' k h
-    obtain ⟨e, t⟩ := p
-    rw [addEdges_cons] at h
-    cases h1 : edgeStep st k e t with
-    | error err => rw [h1] at h; cases h
-    | ok st1 =>
-      rw [h1] at h
-      exact (edgeStep_prefix h1).1.trans (ih st1 st' k h)
-
-theorem edges_sim (rows : List CRow) (outF : List OutEdge) (g : Good rows outF) (kg : Nat) (u : Uid) :
-    ∀ (es : List Compile.Edge) (s : St) (st st' : P1),
-      Rel rows (kg + 1) kg s st → (∃ m, s.nodes[kg]? = some m ∧ m.uid = u) →
-      addEdges st kg (es.map fun e => (toREdge e, Target.row kg)) = .ok st' →
-      st'.out.reverse <+: outF →
-      wp (es.forM (addRowEdge (.node u))) s (fun _ s' =>
-        Rel rows (kg + 1) kg s' st' ∧ NExt s.nodes s'.nodes) := by
-  intro es
-  induction es with
-  | nil =>
-    intro s st st' h _ hst _
-    rw [List.map_nil, addEdges_nil] at hst
-    injection hst with hst; subst hst
-    rw [wp_forM_nil]; exact ⟨h, NExt.refl _⟩
-  | cons e es ih =>
-    intro s st st' h hu hst hpre
-    rw [List.map_cons, addEdges_cons] at hst
-    rw [wp_forM_cons]
-    cases h1 : edgeStep st kg (toREdge e) (Target.row kg) with
-    | error err => rw [h1] at hst; cases hst
-    | ok st1 =>
-      rw [h1] at hst
-      simp only at hst
-      have hpre1 : st1.out.reverse <+: outF := (addEdges_prefix _ _ _ _ hst).trans hpre
-      refine wp_mono (edge_sim rows outF g kg u e s st st1 h hu h1 hpre1) ?_
-      intro _ s1 ⟨r1, e1⟩
-      obtain ⟨m, hm, hmu⟩ := hu
-      obtain ⟨m', hm', hmu'⟩ := e1 kg m hm
-      refine wp_mono (ih s1 st1 st' r1 ⟨m', hm', by rw [hmu', hmu]⟩ hst hpre) ?_
-      intro _ s2 ⟨r2, e2⟩
-      exact ⟨r2, e1.trans e2⟩
-
-/-! ### one row -/
-
-theorem not_special {t : Str} (h : specialTypes.contains t = false) :
-    t ≠ "wait_for_response".toList ∧ t ≠ "split_by_value".toList ∧ t ≠ "split_by_group".toList ∧
-    t ≠ "split_random".toList ∧ t ≠ "start_new_flow".toList ∧ t ≠ "call_webhook".toList ∧
-    t ≠ "transfer_airtime".toList ∧ t ≠ "no_op".toList ∧ t ≠ "go_to".toList ∧ t ≠ "hard_exit".toList ∧
-    t ≠ "loose_exit".toList ∧ t ≠ "insert_as_block".toList := by
-  have hm : ∀ x ∈ specialTypes, t ≠ x := by
-    intro x hx e
-    have : specialTypes.contains t = true := by rw [List.contains_iff_mem, e]; exact hx
-    rw [h] at this; cases this
-  exact ⟨hm _ (by decide), hm _ (by decide), hm _ (by decide), hm _ (by decide), hm _ (by decide),
-    hm _ (by decide), hm _ (by decide), hm _ (by decide), hm _ (by decide), hm _ (by decide),
-    hm _ (by decide), hm _ (by decide)⟩
-
-theorem kindOf_action {t : Str} (h : specialTypes.contains t = false) : kindOf t = .action := by
-  obtain ⟨h1, h2, h3, h4, h5, h6, h7, h8, h9, h10, h11, _⟩ := not_special h
-  unfold kindOf
-  rw [if_neg h1, if_neg h2, if_neg h3, if_neg h4, if_neg h5, if_neg h6, if_neg h7, if_neg h8, if_neg h9,
-    if_neg h10, if_neg h11]
-
-theorem switch_type {t : Str} (h : switchTypes.contains t = true) :
-    t = "wait_for_response".toList ∨ t = "split_by_value".toList ∨ t = "split_by_group".toList := by
-  rw [List.contains_iff_mem] at h
-  simp only [switchTypes, List.map_cons, List.map_nil, List.mem_cons, List.not_mem_nil, or_false] at h
-  exact h
-
-theorem kindOf_switch {t : Str}
-    (h : t = "wait_for_response".toList ∨ t = "split_by_value".toList ∨ t = "split_by_group".toList) :
-    kindOf t = .wait ∨ kindOf t = .splitValue ∨ kindOf t = .splitGroup := by
-  rcases h with h | h | h <;> subst h
-  · exact .inl kindOf_wait
-  · exact .inr (.inl kindOf_value)
-  · exact .inr (.inr kindOf_group)
-
-/-- the node of an action row -/
-theorem rowNode_plain (r : Row) (act : Option (Uid × Str)) (s : St) (h : specialTypes.contains r.type = false) :
-    wp (rowNode r act) s (fun n s' => (∃ k, Bump s s' k) ∧ n.kind = NodeKind.basic ∧ n.router = none ∧
-      n.actions = act.toList ∧ n.dexitDest = Dest.none) := by
-  obtain ⟨h1, h2, h3, h4, h5, h6, h7, _, _, _, _, _⟩ := not_special h
-  unfold rowNode
+/-- an edge leaving a `split_random` row: a new bucket, or a new target for the bucket of that name -/
+theorem rand_edge_sim (r : RandomR) (hk : kindOf c.row.type = .splitRandom)
+    (hp : RandSim M s.nodes n c (outOf st j) r)
+    (hok : bucketNameOk (bucketName (toRCond cond)) = true) :
+    wp (rowExitCond (gOf rows j) [M.nOf j] c.row.type (M.nOf j) n d cond) s (EdgePost rows M pd kg tgt cond s st j) := by
+  unfold rowExitCond
+  have hnb : n.kind ≠ NodeKind.basic := by rw [hp.kind]; intro hh; cases hh
+  simp only [hnb, if_false]
   wp_simp
-  refine ⟨fun _ => ⟨fun _ => ?_, fun _ => ⟨fun hh => absurd hh h5, fun _ => ⟨fun hh => ?_, fun _ =>
-    ⟨fun hh => absurd hh h1, fun _ => ⟨fun hh => absurd hh h2, fun _ => ⟨fun hh => absurd hh h3, fun _ =>
-    ⟨fun hh => absurd hh h4, fun _ => ?_⟩⟩⟩⟩⟩⟩⟩, fun _ => trivial⟩
-  · unfold basicNode
-    wp_simp [wp_newBasic]
-    refine wp_mono (nodeUid_spec _ _) ?_
-    intro u s1 ⟨j, hb, _⟩; subst hb
-    refine ⟨⟨j + 2, by simp [Bump, Nat.add_assoc]⟩, ?_⟩
-    cases act <;> simp [NodeM.withAct]
-  · rcases hh with hh | hh
-    · exact absurd hh h6
-    · exact absurd hh h7
-  · unfold otherNode
-    wp_simp [wp_fresh']
-    refine wp_mono (nodeUid_spec _ _) ?_
-    intro u s1 ⟨j, hb, _⟩; subst hb
-    refine ⟨⟨j + 1, by simp [Bump, Nat.add_assoc]⟩, ?_⟩
-    cases act <;> simp [NodeM.withAct]
+  unfold nodeAddChoice
+  simp only [hp.router]
+  have hbn : (if cond.name.isEmpty = true then cond.value else cond.name) = bucketName (toRCond cond) := rfl
+  rw [hbn]
+  have hbk : bucketsOf (outOf st j ++ [newEdge tgt cond j]) = bstep (bucketsOf (outOf st j)) (newEdge tgt cond j) :=
+    bucketsOf_append _ _
+  generalize hnm0 : bucketName (toRCond cond) = nm0 at hok ⊢
+  have hbc : bucketName (newEdge tgt cond j).cond = nm0 := hnm0
+  have hfresh := h.rfresh (M.nOf j) n r hn hp.router
+  unfold randomAddChoice
+  by_cases hemp : nm0 = []
+  · -- an unnamed bucket
+    subst hemp
+    simp only [List.isEmpty_nil, if_true]
+    have hnone : r.cats.find? (fun c => decide (c.name = "Bucket ".toList ++ Compile.natStr (r.cats.length + 2))) = none := by
+      rw [List.find?_eq_none]
+      intro c0 hc0 hh
+      have := hp.gen c0 hc0 _ (of_decide_eq_true hh)
+      omega
+    rw [hnone]
+    wp_simp [wp_mkCat, wp_setNode]
+    obtain ⟨nc, hnc⟩ : ∃ nc : Cat, nc = Cat.mk (tid s.next) ("Bucket ".toList ++ Compile.natStr (r.cats.length + 2))
+        (tid (s.next + 1)) d := ⟨_, rfl⟩
+    rw [← hnc]
+    have hext : NExt s.nodes (s.nodes.setIfInBounds (M.nOf j) { n with router := some (.rnd { r with cats := r.cats ++ [nc] }) }) :=
+      NExt.set hn rfl
+    refine Rel.update h (newEdge tgt cond j) rfl hj hn hc hnode hro
+      (n' := { n with router := some (.rnd { r with cats := r.cats ++ [nc] }) })
+      rfl htg (set_getElem?_self _ hn) (fun i hi => set_getElem?_other _ _ _ _ hi) rfl rfl rfl rfl ?_ (Nat.le_add_right _ _) ?_
+    · refine .rnd _ hk ⟨hp.kind, hp.acts, rfl, hp.rname, ?_, ?_, ?_, ?_⟩
+      · simp only [List.map_append, List.map_cons, List.map_nil]
+        refine List.nodup_append.mpr ⟨hp.uids, by simp, ?_⟩
+        intro u hu1 u2 hu2 hu3
+        simp only [List.mem_singleton] at hu2
+        rw [hu3] at hu1
+        obtain ⟨c0, hc0, e0⟩ := List.mem_map.mp hu1
+        obtain ⟨k0, hk0, e1⟩ := hfresh c0 hc0
+        rw [hu2] at e0; rw [hnc] at e0
+        rw [e1] at e0
+        have := tid_inj.mp e0
+        omega
+      · simp only [List.map_append, List.map_cons, List.map_nil]
+        refine List.nodup_append.mpr ⟨hp.names, by simp, ?_⟩
+        intro u hu1 u2 hu2 hu3
+        simp only [List.mem_singleton] at hu2
+        rw [hu3] at hu1
+        obtain ⟨c0, hc0, e0⟩ := List.mem_map.mp hu1
+        rw [hu2] at e0; rw [hnc] at e0
+        have := hp.gen c0 hc0 _ e0
+        omega
+      · rw [hbk]
+        unfold bstep
+        rw [hbc]
+        simp only [List.isEmpty_nil, if_true]
+        refine List.rel_append (hp.rel.imp (fun _ _ hd => ⟨hd.1.ext hext, hd.2⟩)) ?_
+        refine List.Forall₂.cons ⟨?_, .inr ⟨?_, head_hash _⟩⟩ List.Forall₂.nil
+        · have : nc.dest = d := by rw [hnc]
+          rw [this]; exact hd.ext hext
+        · have : nc.name = "Bucket ".toList ++ Compile.natStr (r.cats.length + 2) := by rw [hnc]
+          rw [this]; exact take7_bucket _
+      · intro cat hcat k0 hk0
+        simp only [List.mem_append, List.mem_singleton] at hcat
+        simp only [List.length_append, List.length_singleton]
+        rcases hcat with hcat | hcat
+        · have := hp.gen cat hcat k0 hk0; omega
+        · rw [hcat, hnc] at hk0
+          have := Compile.natStr_injective (List.append_cancel_left hk0)
+          omega
+    · intro r' hr' cat hcat
+      injection hr' with hr'; injection hr' with hr'; subst hr'
+      simp only [List.mem_append, List.mem_singleton] at hcat
+      rcases hcat with hcat | hcat
+      · obtain ⟨k0, hk0, e1⟩ := hfresh cat hcat
+        exact ⟨k0, by show k0 < s.next + 2; omega, e1⟩
+      · exact ⟨s.next, by show s.next < s.next + 2; omega, by rw [hcat, hnc]⟩
+  · -- a named bucket
+    have hemp' : nm0.isEmpty = false := by cases nm0 with | nil => exact absurd rfl hemp | cons _ _ => rfl
+    obtain ⟨hk1, hk2⟩ := bucketNameOk_spec hok hemp
+    simp only [hemp', Bool.false_eq_true, if_false]
+    have hany : r.cats.any (fun c => decide (c.name = nm0)) = (bucketsOf (outOf st j)).1.any (fun p => decide (p.1 = nm0)) := by
+      refine forall2_any_iff hp.rel ?_
+      intro a b hab
+      have := hab.2.eq_iff hk1 hk2
+      by_cases e : a.name = nm0
+      · simp [e, this.mp e]
+      · have e' : ¬ b.1 = nm0 := fun hh => e (this.mpr hh)
+        simp [e, e']
+    cases hfind : r.cats.find? (fun c => decide (c.name = nm0)) with
+    | none =>
+      have hnot : ∀ c0 ∈ r.cats, c0.name ≠ nm0 := by
+        intro c0 hc0
+        have := List.find?_eq_none.mp hfind c0 hc0
+        simpa using this
+      have hanyF : (bucketsOf (outOf st j)).1.any (fun p => decide (p.1 = nm0)) = false := by
+        rw [← hany]
+        rw [List.any_eq_false]
+        intro c0 hc0; simpa using hnot c0 hc0
+      wp_simp [wp_mkCat, wp_setNode]
+      obtain ⟨nc, hnc⟩ : ∃ nc : Cat, nc = { uid := tid s.next, name := nm0, exitUid := tid (s.next + 1), dest := d } := ⟨_, rfl⟩
+      rw [← hnc]
+      have hext : NExt s.nodes (s.nodes.setIfInBounds (M.nOf j) { n with router := some (.rnd { r with cats := r.cats ++ [nc] }) }) :=
+        NExt.set hn rfl
+      refine Rel.update h (newEdge tgt cond j) rfl hj hn hc hnode hro
+        (n' := { n with router := some (.rnd { r with cats := r.cats ++ [nc] }) })
+        rfl htg (set_getElem?_self _ hn) (fun i hi => set_getElem?_other _ _ _ _ hi) rfl rfl rfl rfl ?_ (Nat.le_add_right _ _) ?_
+      · refine .rnd _ hk ⟨hp.kind, hp.acts, rfl, hp.rname, ?_, ?_, ?_, ?_⟩
+        · simp only [List.map_append, List.map_cons, List.map_nil]
+          refine List.nodup_append.mpr ⟨hp.uids, by simp, ?_⟩
+          intro u hu1 u2 hu2 hu3
+          simp only [List.mem_singleton] at hu2
+          rw [hu3] at hu1
+          obtain ⟨c0, hc0, e0⟩ := List.mem_map.mp hu1
+          obtain ⟨k0, hk0, e1⟩ := hfresh c0 hc0
+          rw [hu2] at e0; rw [hnc] at e0
+          rw [e1] at e0
+          have := tid_inj.mp e0
+          omega
+        · simp only [List.map_append, List.map_cons, List.map_nil]
+          refine List.nodup_append.mpr ⟨hp.names, by simp, ?_⟩
+          intro u hu1 u2 hu2 hu3
+          simp only [List.mem_singleton] at hu2
+          rw [hu3] at hu1
+          obtain ⟨c0, hc0, e0⟩ := List.mem_map.mp hu1
+          rw [hu2] at e0; rw [hnc] at e0
+          exact hnot c0 hc0 e0
+        · rw [hbk]
+          unfold bstep
+          rw [hbc]
+          simp only [hemp', Bool.false_eq_true, if_false, hanyF]
+          refine List.rel_append (hp.rel.imp (fun _ _ hd => ⟨hd.1.ext hext, hd.2⟩)) ?_
+          refine List.Forall₂.cons ⟨?_, .inl ⟨?_, hemp, hk1, hk2⟩⟩ List.Forall₂.nil
+          · have : nc.dest = d := by rw [hnc]
+            rw [this]; exact hd.ext hext
+          · rw [hnc]
+        · intro cat hcat k0 hk0
+          simp only [List.mem_append, List.mem_singleton] at hcat
+          simp only [List.length_append, List.length_singleton]
+          rcases hcat with hcat | hcat
+          · have := hp.gen cat hcat k0 hk0; omega
+          · rw [hcat, hnc] at hk0
+            exfalso
+            apply hk1
+            have : nm0 = "Bucket ".toList ++ Compile.natStr k0 := hk0
+            rw [this]; exact take7_bucket _
+      · intro r' hr' cat hcat
+        injection hr' with hr'; injection hr' with hr'; subst hr'
+        simp only [List.mem_append, List.mem_singleton] at hcat
+        rcases hcat with hcat | hcat
+        · obtain ⟨k0, hk0, e1⟩ := hfresh cat hcat
+          exact ⟨k0, by show k0 < s.next + 2; omega, e1⟩
+        · exact ⟨s.next, by show s.next < s.next + 2; omega, by rw [hcat, hnc]⟩
+    | some c0 =>
+      have hc0m : c0 ∈ r.cats := List.mem_of_find?_eq_some hfind
+      have hc0n : c0.name = nm0 := by simpa using List.find?_some hfind
+      have hanyT : (bucketsOf (outOf st j)).1.any (fun p => decide (p.1 = nm0)) = true := by
+        rw [← hany, List.any_eq_true]
+        exact ⟨c0, hc0m, by simp [hc0n]⟩
+      wp_simp [wp_setNode]
+      obtain ⟨f, hf⟩ : ∃ f : Cat → Cat, f = fun c' => if c'.uid = c0.uid then { c' with dest := d } else c' := ⟨_, rfl⟩
+      rw [← hf]
+      have hfu : ∀ a, (f a).uid = a.uid := by intro a; rw [hf]; simp only; split <;> rfl
+      have hfn : ∀ a, (f a).name = a.name := by intro a; rw [hf]; simp only; split <;> rfl
+      have hext : NExt s.nodes (s.nodes.setIfInBounds (M.nOf j) { n with router := some (.rnd { r with cats := r.cats.map f }) }) :=
+        NExt.set hn rfl
+      refine Rel.update h (newEdge tgt cond j) rfl hj hn hc hnode hro
+        (n' := { n with router := some (.rnd { r with cats := r.cats.map f }) })
+        rfl htg (set_getElem?_self _ hn) (fun i hi => set_getElem?_other _ _ _ _ hi) rfl rfl rfl rfl ?_ (Nat.le_refl _) ?_
+      · refine .rnd _ hk ⟨hp.kind, hp.acts, rfl, hp.rname, ?_, ?_, ?_, ?_⟩
+        · have : (r.cats.map f).map (·.uid) = r.cats.map (·.uid) := by
+            rw [List.map_map]; exact List.map_congr_left (fun a _ => hfu a)
+          show ((r.cats.map f).map (·.uid)).Nodup
+          rw [this]; exact hp.uids
+        · have : (r.cats.map f).map (·.name) = r.cats.map (·.name) := by
+            rw [List.map_map]; exact List.map_congr_left (fun a _ => hfn a)
+          show ((r.cats.map f).map (·.name)).Nodup
+          rw [this]; exact hp.names
+        · rw [hbk]
+          unfold bstep
+          rw [hbc]
+          simp only [hemp', Bool.false_eq_true, if_false, hanyT, if_true]
+          refine forall2_map_mem hp.rel ?_
+          intro a b ha hab
+          have h1 : a.uid = c0.uid ↔ a.name = nm0 := by
+            rw [← hc0n]; exact uid_iff_name r.cats hp.uids hp.names c0 a hc0m ha
+          have h2 := hab.2.eq_iff hk1 hk2
+          by_cases e : a.uid = c0.uid
+          · have e2 : b.1 = nm0 := h2.mp (h1.mp e)
+            have hfa : f a = { a with dest := d } := by rw [hf]; simp only [e, if_true]
+            rw [hfa]
+            simp only [e2, if_true]
+            exact ⟨hd.ext hext, by rw [← e2]; exact hab.2⟩
+          · have e2 : ¬ b.1 = nm0 := fun hh => e (h1.mpr (h2.mpr hh))
+            have hfa : f a = a := by rw [hf]; simp only [e, if_false]
+            rw [hfa]
+            simp only [e2, if_false]
+            exact ⟨hab.1.ext hext, hab.2⟩
+        · intro cat hcat k0 hk0
+          obtain ⟨a, ha, e⟩ := List.mem_map.mp hcat
+          simp only [List.length_map]
+          rw [← e, hfn] at hk0
+          exact hp.gen a ha k0 hk0
+      · intro r' hr' cat hcat
+        injection hr' with hr'; injection hr' with hr'; subst hr'
+        obtain ⟨a, ha, e⟩ := List.mem_map.mp hcat
+        obtain ⟨k0, hk0, e1⟩ := hfresh a ha
+        exact ⟨k0, hk0, by rw [← e, hfu, e1]⟩
 
-/-- what a freshly built switch router looks like -/
-structure FreshSw (sw : SwitchR) (operand : Str) (rn : Option Str) (wait : Option Nat) : Prop where
-  operand : sw.operand = operand
-  rname : sw.resultName = rn
-  wait : sw.wait = wait
-  nrSome : sw.noResp.isSome = true ↔ ∃ m, sw.wait = some (m + 1)
-  cases : sw.cases = []
-  cats : sw.cats = []
-  dflt : sw.dflt.dest = Dest.none
-  nr : ∀ nr, sw.noResp = some nr → nr.dest = Dest.none
-
-theorem newSwitch_fresh (operand : Str) (rn : Option Str) (wait : Option Nat) (s : St) :
-    wp (newSwitch operand rn wait) s (fun sw s' => (∃ k, Bump s s' k) ∧ FreshSw sw operand rn wait) := by
-  rw [wp_newSwitch]
-  rcases wait with _ | _ | m
-  · exact ⟨⟨2, rfl⟩, ⟨rfl, rfl, rfl, by simp, rfl, rfl, rfl, by intro nr h; cases h⟩⟩
-  · exact ⟨⟨2, rfl⟩, ⟨rfl, rfl, rfl, by simp, rfl, rfl, rfl, by intro nr h; cases h⟩⟩
-  · refine ⟨⟨4, rfl⟩, ⟨rfl, rfl, rfl, by simp, rfl, rfl, rfl, ?_⟩⟩
-    intro nr h; simp only [Option.some.injEq] at h; subst h; rfl
-
-theorem not_basic_w : basicTypes.contains "wait_for_response".toList = false := by decide
-theorem not_basic_v : basicTypes.contains "split_by_value".toList = false := by decide
-theorem not_basic_g : basicTypes.contains "split_by_group".toList = false := by decide
-
-/-- the node of a deciding row -/
-theorem rowNode_switch (r : Row) (act : Option (Uid × Str)) (s : St)
-    (ht : r.type = "wait_for_response".toList ∨ r.type = "split_by_value".toList ∨ r.type = "split_by_group".toList) :
-    wp (rowNode r act) s (fun n s' => (∃ k, Bump s s' k) ∧ n.kind = NodeKind.switch ∧ n.actions = [] ∧
-      ∃ sw, n.router = some (.sw sw) ∧
-        FreshSw sw (operandOf r) (some r.saveName)
-          (if r.type = "wait_for_response".toList then some (timeoutOf r) else none)) := by
-  unfold rowNode
-  wp_simp
-  refine ⟨fun _ => ?_, fun _ => trivial⟩
-  have tail : ∀ (u : Uid) (s1 : St) (j : Nat) (operand : Str) (w : Option Nat), Bump s s1 j →
-      wp (newSwitch operand (some r.saveName) w) s1 (fun sw s2 =>
-        wp (newRouterNode u NodeKind.switch (RouterM.sw sw)) s2 (fun n s' =>
-          (∃ k, Bump s s' k) ∧ n.kind = NodeKind.switch ∧ n.actions = [] ∧
-            ∃ sw, n.router = some (.sw sw) ∧ FreshSw sw operand (some r.saveName) w)) := by
-    intro u s1 j operand w hb
-    subst hb
-    refine wp_mono (newSwitch_fresh _ _ _ _) ?_
-    intro sw s2 ⟨⟨k, hb2⟩, hfr⟩; subst hb2
-    rw [wp_newRouterNode]
-    exact ⟨⟨j + k + 1, by simp [Bump, Nat.add_assoc]⟩, rfl, rfl, sw, rfl, hfr⟩
-  rcases ht with h | h | h
-  · -- wait_for_response
-    have e0 : basicTypes.contains r.type = false := by rw [h]; exact not_basic_w
-    have e1 : ¬ r.type = "start_new_flow".toList := by rw [h]; decide
-    have e2 : ¬ (r.type = "call_webhook".toList ∨ r.type = "transfer_airtime".toList) := by
-      rw [h]; rintro (hh | hh) <;> exact absurd hh (by decide)
-    refine ⟨fun hh => (by rw [e0] at hh; cases hh), fun _ => ⟨fun hh => absurd hh e1, fun _ =>
-      ⟨fun hh => absurd hh e2, fun _ => ⟨fun _ => ?_, fun hh => absurd h hh⟩⟩⟩⟩
-    unfold waitNode
-    wp_simp
-    refine wp_mono (nodeUid_spec _ _) ?_
-    intro u s1 ⟨j, hb, _⟩
-    have hop : operandOf r = "@input.text".toList := by
-      unfold CoreSheet.operandOf
-      rw [h, if_neg (by decide), if_neg (by decide), if_neg (by decide), if_pos rfl]
-    rw [if_pos h, hop]
-    have hto : timeoutOf r = (parseNat? r.noResponse).getD 0 := by unfold timeoutOf; rw [if_pos h]
-    constructor
-    · intro hemp
-      have : timeoutOf r = 0 := by
-        rw [hto]; unfold parseNat?; rw [if_pos hemp]; rfl
-      rw [this]
-      exact tail u s1 j _ _ hb
-    · intro _
-      split
-      · rename_i m hm
-        wp_simp
-        have : timeoutOf r = m := by rw [hto, hm]; rfl
-        rw [this]
-        exact tail u s1 j _ _ hb
-      · wp_simp
-  · -- split_by_value
-    have e0 : basicTypes.contains r.type = false := by rw [h]; exact not_basic_v
-    have e1 : ¬ r.type = "start_new_flow".toList := by rw [h]; decide
-    have e2 : ¬ (r.type = "call_webhook".toList ∨ r.type = "transfer_airtime".toList) := by
-      rw [h]; rintro (hh | hh) <;> exact absurd hh (by decide)
-    have e3 : ¬ r.type = "wait_for_response".toList := by rw [h]; decide
-    refine ⟨fun hh => (by rw [e0] at hh; cases hh), fun _ => ⟨fun hh => absurd hh e1, fun _ =>
-      ⟨fun hh => absurd hh e2, fun _ => ⟨fun hh => absurd hh e3, fun _ => ⟨fun _ => ?_, fun hh => absurd h hh⟩⟩⟩⟩⟩
-    unfold splitValueNode
-    wp_simp
-    refine wp_mono (nodeUid_spec _ _) ?_
-    intro u s1 ⟨j, hb, _⟩
-    refine ⟨fun _ => trivial, fun _ => ?_⟩
-    have hop : operandOf r = r.expression := by
-      unfold CoreSheet.operandOf
-      rw [h, if_neg (by decide), if_neg (by decide), if_neg (by decide), if_neg (by decide), if_pos rfl]
-    rw [if_neg e3, hop]
-    exact tail u s1 j _ _ hb
-  · -- split_by_group
-    have e0 : basicTypes.contains r.type = false := by rw [h]; exact not_basic_g
-    have e1 : ¬ r.type = "start_new_flow".toList := by rw [h]; decide
-    have e2 : ¬ (r.type = "call_webhook".toList ∨ r.type = "transfer_airtime".toList) := by
-      rw [h]; rintro (hh | hh) <;> exact absurd hh (by decide)
-    have e3 : ¬ r.type = "wait_for_response".toList := by rw [h]; decide
-    have e4 : ¬ r.type = "split_by_value".toList := by rw [h]; decide
-    refine ⟨fun hh => (by rw [e0] at hh; cases hh), fun _ => ⟨fun hh => absurd hh e1, fun _ =>
-      ⟨fun hh => absurd hh e2, fun _ => ⟨fun hh => absurd hh e3, fun _ => ⟨fun hh => absurd hh e4, fun _ =>
-      ⟨fun _ => ?_, fun hh => absurd h hh⟩⟩⟩⟩⟩⟩
-    unfold splitGroupNode
-    wp_simp
-    refine wp_mono (nodeUid_spec _ _) ?_
-    intro u s1 ⟨j, hb, _⟩
-    have hop : operandOf r = "@contact.groups".toList := by
-      unfold CoreSheet.operandOf
-      rw [h, if_neg (by decide), if_neg (by decide), if_neg (by decide), if_neg (by decide), if_neg (by decide),
-        if_pos rfl]
-    rw [if_neg e3, hop]
-    exact tail u s1 j _ _ hb
-
-
-theorem trivial_toREdge (e : Compile.Edge) : isTrivial (toREdge e) = e.trivial := rfl
-
-theorem dropTrivial_ref (es : List Compile.Edge) :
-    ((es.map toREdge).zipIdx.filter fun (p : REdge × Nat) => p.2 = 0 || !isTrivial p.1).map (·.1) =
-      (dropTrivial es).map toREdge := by
-  unfold dropTrivial
-  rw [List.zipIdx_map, List.filter_map, List.map_map, List.map_map]
-  congr 1
-
-theorem outOf_nil_of_srclt (st : P1) (k : Nat) (h : ∀ e ∈ st.out, e.src < k) : outOf st k = [] := by
-  unfold outOf
-  rw [List.filter_eq_nil_iff]
-  intro e he
-  have := h e (by simpa using he)
-  simp; omega
-
-theorem rowAction_exact (r : Row) (s : St) :
-    wp (rowAction r) s (fun act s' => (∃ k, Bump s s' k) ∧ act.map (·.2) = r.action) := by
-  unfold rowAction
-  split
-  · rename_i a ha
-    wp_simp [wp_fresh']
-    exact ⟨⟨1, rfl⟩, by simp [ha]⟩
-  · rename_i ha
-    wp_simp
-    exact ⟨⟨0, rfl⟩, by simp [ha]⟩
-
-/-- the facts about a row of the fragment that the parser looks at -/
-structure RowFacts (c : CRow) : Prop where
-  nouid : c.row.nodeUuid = []
-  noname : c.row.nodeName = []
-  t8 : c.row.type ≠ "no_op".toList
-  t9 : c.row.type ≠ "go_to".toList
-  t10 : c.row.type ≠ "hard_exit".toList
-  t11 : c.row.type ≠ "loose_exit".toList
-  t12 : c.row.type ≠ "insert_as_block".toList
-  kind : kindOf c.row.type = .action ∨ kindOf c.row.type = .wait ∨ kindOf c.row.type = .splitValue ∨
-    kindOf c.row.type = .splitGroup
-
-theorem rowFacts (c : CRow) (hf : rowOk c = true) : RowFacts c := by
-  simp only [rowOk, Bool.or_eq_true] at hf
-  rcases hf with hf | hf
-  · simp only [plainActionRow, Bool.and_eq_true, Bool.not_eq_true', List.isEmpty_iff, decide_eq_true_eq] at hf
-    obtain ⟨⟨⟨hsp, hu⟩, hnm⟩, _⟩ := hf
-    obtain ⟨_, _, _, _, _, _, _, h8, h9, h10, h11, h12⟩ := not_special hsp
-    exact ⟨hu, hnm, h8, h9, h10, h11, h12, .inl (kindOf_action hsp)⟩
-  · simp only [switchRow, Bool.and_eq_true, List.isEmpty_iff] at hf
-    obtain ⟨⟨⟨hsw, hu⟩, hnm⟩, _⟩ := hf
-    have ht := switch_type hsw
-    refine ⟨hu, hnm, ?_, ?_, ?_, ?_, ?_, .inr (kindOf_switch ht)⟩ <;>
-      (rcases ht with h | h | h <;> rw [h] <;> decide)
-
-/-- a row of the fragment goes straight to `newRow` -/
-theorem wp_parseRow_new (c : CRow) (hf : RowFacts c) (s : St) (Q : PUnit → St → Prop)
-    (h : c.row.actionOk = true → wp (newRow { c.row with edges := dropTrivial c.row.edges } []) s Q) :
-    wp (parseRow c.row) s Q := by
-  unfold parseRow
-  simp only
-  rw [if_neg (by rintro (hh | hh); exact hf.t10 hh; exact hf.t11 hh), if_neg hf.t9, if_neg hf.t8, if_neg hf.t12]
-  unfold actionRow
-  wp_simp
-  refine ⟨fun _ => trivial, fun hok => ?_⟩
-  have e1 : (if List.isEmpty c.row.nodeUuid = true then c.row.nodeName else c.row.nodeUuid) = [] := by
-    simp [hf.nouid, hf.noname]
-  rw [e1]
-  simp only [List.isEmpty_nil, if_true]
-  exact h (by simpa using hok)
-
-/-- pass 1 on a node-producing row -/
-theorem pass1Row_node (st : P1) (k : Nat) (r : RRow)
-    (hk : r.kind = .action ∨ r.kind = .wait ∨ r.kind = .splitValue ∨ r.kind = .splitGroup) :
-    pass1Row st k r =
-      match addEdges st k (((r.edges.zipIdx.filter fun (p : REdge × Nat) => p.2 = 0 || !isTrivial p.1).map (·.1)).map
-          (fun e => (e, Target.row k))) with
-      | .error err => .error err
-      | .ok st1 => .ok { st1 with prev := some k, ids := if r.rowId.isEmpty then st1.ids else (r.rowId, k) :: st1.ids } := by
-  unfold pass1Row
-  rcases hk with h | h | h | h <;> simp only [h, bind, Except.bind, pure, Except.pure] <;>
-    (cases addEdges st k _ <;> rfl)
-
-/-- the node the compiler creates for a row of the fragment is the compiled form of the row with no
-out-edge yet -/
-theorem rowNode_sim (c : CRow) (hf : rowOk c = true) (edges : List Compile.Edge) (act : Option (Uid × Str))
-    (hact : act.map (·.2) = c.row.action) (s : St) :
-    wp (rowNode { c.row with edges := edges } act) s (fun n s' =>
-      (∃ k, Bump s s' k) ∧ ∀ ns, NodeSim ns n c []) := by
-  simp only [rowOk, Bool.or_eq_true] at hf
-  rcases hf with hf | hf
-  · simp only [plainActionRow, Bool.and_eq_true, Bool.not_eq_true', List.isEmpty_iff, decide_eq_true_eq] at hf
-    obtain ⟨⟨⟨hsp, _⟩, _⟩, _⟩ := hf
-    refine wp_mono (rowNode_plain _ act s hsp) ?_
-    intro n s' ⟨hb, hnk, hnr, hna, hnd⟩
-    refine ⟨hb, fun ns => .plain (kindOf_action hsp) ⟨hnk, hnr, ?_, ?_⟩⟩
-    · have e2 : act.toList.map (·.2) = (act.map (·.2)).toList := by cases act <;> rfl
-      rw [hna, e2, hact]
-    · rw [hnd]; rfl
-  · simp only [switchRow, Bool.and_eq_true, List.isEmpty_iff] at hf
-    obtain ⟨⟨⟨hsw, _⟩, _⟩, _⟩ := hf
-    have ht := switch_type hsw
-    refine wp_mono (rowNode_switch _ act s ht) ?_
-    intro n s' ⟨hb, hnk, hna, sw, hrt, hfr⟩
-    refine ⟨hb, fun ns => .sw sw (kindOf_switch ht) ⟨hnk, hna, hrt, hfr.operand, hfr.rname, ?_, hfr.nrSome, ?_, ?_, ?_, ?_, ?_⟩⟩
-    · rw [hfr.wait]; rfl
-    · rw [hfr.cases]; rfl
-    · rw [hfr.cases, hfr.cats]; rfl
-    · rw [hfr.cats]; exact List.Forall₂.nil
-    · rw [hfr.dflt]; rfl
-    · intro nr hnr; rw [hfr.nr nr hnr]; rfl
-
-theorem row_sim (rows : List CRow) (outF : List OutEdge) (g : Good rows outF) (k : Nat) (c : CRow)
-    (hc : rows[k]? = some c) (hf : rowOk c = true) (s : St) (st st' : P1) (h : Rel rows k k s st)
-    (hst : pass1Row st k (toRRow c) = .ok st') (hpre : st'.out.reverse <+: outF) :
-    wp (step (toEvent c)) s (fun _ s' => Rel rows (k + 1) (k + 1) s' st') := by
-  have hfacts := rowFacts c hf
-  -- the reference side
-  rw [pass1Row_node st k (toRRow c) hfacts.kind] at hst
-  have hes : (((toRRow c).edges.zipIdx.filter fun (p : REdge × Nat) => p.2 = 0 || !isTrivial p.1).map (·.1)).map
-      (fun e => (e, Target.row k)) = (dropTrivial c.row.edges).map (fun e => (toREdge e, Target.row k)) := by
-    have := dropTrivial_ref c.row.edges
-    simp only [toRRow]
-    rw [this, List.map_map]; rfl
-  rw [hes] at hst
-  cases hst1 : addEdges st k ((dropTrivial c.row.edges).map (fun e => (toREdge e, Target.row k))) with
-  | error err => rw [hst1] at hst; cases hst
-  | ok st1 =>
-    rw [hst1] at hst
-    simp only [Except.ok.injEq] at hst
-    have hpre1 : st1.out.reverse <+: outF := by rw [← hst] at hpre; exact hpre
-    -- the compiler side
-    unfold step toEvent
-    refine wp_parseRow_new c hfacts s _ (fun _ => ?_)
-    unfold newRow
-    wp_simp [wp_addNode, wp_addGrp]
-    refine wp_mono (rowAction_exact _ s) ?_
-    intro act s1 ⟨⟨k1, hb1⟩, hact1⟩; subst hb1
-    refine wp_mono (rowNode_sim c hf _ act hact1 _) ?_
-    intro n s2 ⟨⟨k2, hb2⟩, hnsim⟩; subst hb2
-    dsimp only
-    -- the arena with the pending node
-    have r1 : Rel rows (k + 1) k { s with nodes := s.nodes.push n, next := s.next + k1 + k2 } st := by
-      refine ⟨by simp [h.nsize], h.gsize, h.root, h.grp, h.stack, h.ids, h.idlt, h.prev, h.srclt, h.args, ?_⟩
-      intro j hj
-      by_cases hjk : j = k
-      · subst hjk
-        refine ⟨n, c, by simp [← h.nsize], hc, ?_⟩
-        rw [outOf_nil_of_srclt st j h.srclt]
-        exact hnsim _
-      · obtain ⟨n', c', hn', hc', hp'⟩ := h.node j (by omega)
-        exact ⟨n', c', getElem?_push_of_some n hn', hc', hp'.ext (NExt.push _ _)⟩
-    refine wp_mono (edges_sim rows outF g k n.uid _ _ st st1 r1 ⟨n, by simp [← h.nsize], rfl⟩ hst1 hpre1) ?_
-    intro _ s3 ⟨r3, _⟩
-    -- the row group is created and appended to the root block
-    unfold appendGroup
-    wp_simp [wp_setGrp]
-    simp only [r3.stack]
-    have hroot3 : (s3.groups.push (Grp.row [s.nodes.size] c.row.type))[0]? = some (.block (List.range' 1 k)) := by
-      rw [Array.getElem?_push]
-      have : ¬ 0 = s3.groups.size := by rw [r3.gsize]; omega
-      simp [this, r3.root]
-    rw [hroot3]
-    wp_simp [wp_setGrp]
-    unfold addRowId
-    have hsz : s3.groups.size = k + 1 := r3.gsize
-    have hfinal : ∀ (rowIds : List (Str × Nat)) (ids : List (Str × Nat)) (names : List (Str × Nat)),
-        rowIds = ids.map (fun p => (p.1, p.2 + 1)) → (∀ p ∈ ids, p.2 < k + 1) →
-        Rel rows (k + 1) (k + 1)
-          { s3 with groups := (s3.groups.push (Grp.row [s.nodes.size] c.row.type)).setIfInBounds 0
-                      (Grp.block (List.range' 1 k ++ [s3.groups.size])),
-                    rowIds := rowIds, names := names }
-          { st1 with prev := some k, ids := ids } := by
-      intro rowIds ids names hids hlt
-      refine ⟨r3.nsize, by simp [hsz], ?_, ?_, r3.stack, hids, hlt, by simp,
-        fun e he => by have := r3.srclt e he; omega, r3.args, r3.node⟩
-      · simp only [Array.getElem?_setIfInBounds, Array.size_push]
-        simp [hsz, List.range'_concat]; omega
-      · intro j hj
-        simp only [Array.getElem?_setIfInBounds, Array.getElem?_push]
-        have h0 : ¬ 0 = j + 1 := by omega
-        simp only [h0, if_false]
-        by_cases hjk : j = k
-        · subst hjk; exact ⟨c, hc, by simp [hsz, h.nsize]⟩
-        · obtain ⟨t, hct, ht⟩ := r3.grp j (by omega)
-          have : ¬ j + 1 = s3.groups.size := by omega
-          exact ⟨t, hct, by simp [this, ht]⟩
-    by_cases hrid : c.row.rowId = []
-    · simp only [hrid, List.isEmpty_nil, if_true]
-      wp_simp
-      have := hfinal s3.rowIds st1.ids (([], s.nodes.size) :: s3.names) r3.ids
-        (fun p hp => by have := r3.idlt p hp; omega)
-      rw [← hst]
-      simpa [toRRow, hrid, r3.stack] using this
-    · simp only [List.isEmpty_iff, hrid, if_false]
-      wp_simp
-      have := hfinal ((c.row.rowId, s3.groups.size) :: s3.rowIds) ((c.row.rowId, k) :: st1.ids)
-        (([], s.nodes.size) :: s3.names) (by simp [r3.ids, hsz])
-        (fun p hp => by
-          simp only [List.mem_cons] at hp
-          rcases hp with rfl | hp
-          · simp
-          · have := r3.idlt p hp; omega)
-      rw [← hst]
-      simpa [toRRow, List.isEmpty_iff, hrid, r3.stack] using this
-
+end
 end Rpft.CoreSheet
